@@ -1,6 +1,1774 @@
-//! C06 — not built yet.
-use crate::core::Ctx;
+//! C06 — conversions are lossless or refused; the explicitly lossy ones (to_f32/to_f64/to_int/
+//! to_float, FloatEncoding::encode) are correctly rounded for their documented rule and flag
+//! exactness / the sign of the error truthfully.
+//!
+//! Reference side: `h06.rs` (IEEE-754 grid rounding of exact dyadic/rational values on integers,
+//! cross-checked against hardware casts and std's decimal parser) and `fref.rs` (exact fractions,
+//! the float rounding contract).
+
+#[path = "h06.rs"]
+mod h06;
+
+use self::h06::*;
+use crate::core::{guard, Ctx, Rec};
+use crate::for_all_modes;
+use crate::fref::*;
+use crate::h::unflatten;
+use crate::uni::*;
+use dashu_base::{Approximation, ConversionError, FloatEncoding, Sign};
+use dashu_float::round::{mode, Rounding};
+use dashu_float::{FBig, Repr};
+use dashu_int::{IBig, UBig, Word};
+use dashu_ratio::{RBig, Relaxed};
+use num_bigint::{BigInt, BigUint};
+use num_traits::{One, Signed, ToPrimitive, Zero};
+use std::cmp::Ordering::{self, *};
+use std::collections::BTreeSet;
+use std::convert::TryFrom;
+
+type F2 = FBig<mode::Zero, 2>;
+type F10 = FBig<mode::HalfAway, 10>;
+
+// ---------------------------------------------------------------------------------------------
+// generic readers (reference side of dashu values, through raw words only)
+
+fn fb_rat<R: dashu_float::round::Round, const B: Word>(f: &FBig<R, B>) -> Option<Rat> {
+    if f.repr().is_infinite() {
+        None
+    } else {
+        Some(fval(f.repr()).rat())
+    }
+}
+fn rb_rat(r: &RBig) -> (BigInt, BigInt) {
+    (i_to_ref(r.numerator()), BigInt::from(u_to_ref(r.denominator())))
+}
+fn rx_rat(r: &Relaxed) -> (BigInt, BigInt) {
+    (i_to_ref(r.numerator()), BigInt::from(u_to_ref(r.denominator())))
+}
+fn canonical(n: &BigInt, d: &BigInt) -> bool {
+    use num_integer::Integer;
+    d.is_positive() && n.gcd(d).is_one()
+}
+fn err_name(e: ConversionError) -> &'static str {
+    match e {
+        ConversionError::OutOfBounds => "refused:OutOfBounds",
+        ConversionError::LossOfPrecision => "refused:LossOfPrecision",
+    }
+}
+
+// ---------------------------------------------------------------------------------------------
+// (a) primitive integers <-> UBig / IBig / FBig / RBig / Relaxed
+
+trait Prim: Copy + PartialEq + std::fmt::Debug + Send + Sync + 'static {
+    const NAME: &'static str;
+    const SIGNED: bool;
+    const BITS: u32;
+    fn make(neg: bool, mag: u128) -> Self;
+    fn to_u(self) -> Result<UBig, ConversionError>;
+    fn to_i(self) -> IBig;
+    fn to_f2(self) -> F2;
+    fn to_f10(self) -> F10;
+    fn to_r(self) -> RBig;
+    fn to_x(self) -> Relaxed;
+    fn from_u(v: &UBig) -> Result<Self, ConversionError>;
+    fn from_u_val(v: UBig) -> Result<Self, ConversionError>;
+    fn from_i(v: &IBig) -> Result<Self, ConversionError>;
+    fn from_i_val(v: IBig) -> Result<Self, ConversionError>;
+    fn from_f2(v: F2) -> Result<Self, ConversionError>;
+    fn from_f10(v: F10) -> Result<Self, ConversionError>;
+    fn from_r(v: RBig) -> Result<Self, ConversionError>;
+    fn from_x(v: Relaxed) -> Result<Self, ConversionError>;
+}
+
+macro_rules! impl_prim {
+    ($signed:expr, $($t:ty)*) => {$(
+        impl Prim for $t {
+            const NAME: &'static str = stringify!($t);
+            const SIGNED: bool = $signed;
+            const BITS: u32 = <$t>::BITS;
+            fn make(neg: bool, mag: u128) -> Self { if neg { (mag as i128).wrapping_neg() as $t } else { mag as $t } }
+            #[allow(clippy::useless_conversion, irrefutable_let_patterns)]
+            fn to_u(self) -> Result<UBig, ConversionError> { UBig::try_from(self).map_err(|_| ConversionError::OutOfBounds) }
+            fn to_i(self) -> IBig { IBig::from(self) }
+            fn to_f2(self) -> F2 { F2::from(self) }
+            fn to_f10(self) -> F10 { F10::from(self) }
+            fn to_r(self) -> RBig { RBig::from(self) }
+            fn to_x(self) -> Relaxed { Relaxed::from(self) }
+            fn from_u(v: &UBig) -> Result<Self, ConversionError> { <$t>::try_from(v) }
+            fn from_u_val(v: UBig) -> Result<Self, ConversionError> { <$t>::try_from(v) }
+            fn from_i(v: &IBig) -> Result<Self, ConversionError> { <$t>::try_from(v) }
+            fn from_i_val(v: IBig) -> Result<Self, ConversionError> { <$t>::try_from(v) }
+            fn from_f2(v: F2) -> Result<Self, ConversionError> { <$t>::try_from(v) }
+            fn from_f10(v: F10) -> Result<Self, ConversionError> { <$t>::try_from(v) }
+            fn from_r(v: RBig) -> Result<Self, ConversionError> { <$t>::try_from(v) }
+            fn from_x(v: Relaxed) -> Result<Self, ConversionError> { <$t>::try_from(v) }
+        }
+    )*};
+}
+impl_prim!(false, u8 u16 u32 u64 u128 usize);
+impl_prim!(true, i8 i16 i32 i64 i128 isize);
+
+macro_rules! with_prim {
+    ($idx:expr, $f:ident, ($($a:expr),*)) => {
+        match $idx {
+            0 => $f::<u8>($($a),*), 1 => $f::<u16>($($a),*), 2 => $f::<u32>($($a),*), 3 => $f::<u64>($($a),*),
+            4 => $f::<u128>($($a),*), 5 => $f::<usize>($($a),*), 6 => $f::<i8>($($a),*), 7 => $f::<i16>($($a),*),
+            8 => $f::<i32>($($a),*), 9 => $f::<i64>($($a),*), 10 => $f::<i128>($($a),*), 11 => $f::<isize>($($a),*),
+            _ => unreachable!(),
+        }
+    };
+}
+macro_rules! all_prims {
+    ($f:ident, ($($a:expr),*)) => {{
+        $f::<u8>($($a),*); $f::<u16>($($a),*); $f::<u32>($($a),*); $f::<u64>($($a),*); $f::<u128>($($a),*); $f::<usize>($($a),*);
+        $f::<i8>($($a),*); $f::<i16>($($a),*); $f::<i32>($($a),*); $f::<i64>($($a),*); $f::<i128>($($a),*); $f::<isize>($($a),*);
+    }};
+}
+
+/// an integer value of the universe: sign, magnitude (if < 2^128) and the BigInt
+#[derive(Clone)]
+struct IVal {
+    neg: bool,
+    mag: Option<u128>,
+    big: BigInt,
+}
+impl IVal {
+    fn small(neg: bool, mag: u128) -> IVal {
+        let b = BigInt::from(mag);
+        IVal { neg: neg && mag != 0, mag: Some(mag), big: if neg { -b } else { b } }
+    }
+    fn of(big: BigInt) -> IVal {
+        IVal { neg: big.is_negative(), mag: big.magnitude().to_u128(), big }
+    }
+    fn size_class(&self) -> &'static str {
+        match self.big.bits() {
+            0..=64 => "le64bits",
+            65..=128 => "le128bits",
+            _ => "gt128bits",
+        }
+    }
+}
+fn fits<T: Prim>(v: &IVal) -> bool {
+    let mag = match v.mag {
+        Some(m) => m,
+        None => return false,
+    };
+    if T::SIGNED {
+        let lim = 1u128 << (T::BITS - 1);
+        if v.neg { mag <= lim } else { mag < lim }
+    } else {
+        !v.neg && (T::BITS == 128 || mag < (1u128 << T::BITS))
+    }
+}
+
+/// the six arbitrary-precision images of one integer value
+struct Bigs {
+    u: Option<UBig>,
+    i: IBig,
+    f2: F2,
+    f10: F10,
+    r: RBig,
+    x: Relaxed,
+}
+
+fn verify_bigs(rec: &mut Rec, how: &str, v: &IVal, b: &Bigs) {
+    let cls = format!("{},{}", if v.neg { "neg" } else { "nonneg" }, v.size_class());
+    let case = || format!("{} of {}", how, hex(&v.big));
+    rec.steps(6);
+    if let Some(u) = &b.u {
+        if BigInt::from(u_to_ref(u)) != v.big {
+            rec.fail(format!("{}|UBig::from({})|wrong-value|{}", P, how, cls), case(), hexu(&u_to_ref(u)), hex(&v.big));
+        }
+    }
+    if i_to_ref(&b.i) != v.big {
+        rec.fail(format!("{}|IBig::from({})|wrong-value|{}", P, how, cls), case(), hex(&i_to_ref(&b.i)), hex(&v.big));
+    }
+    let want = Rat::int(v.big.clone());
+    if fb_rat(&b.f2).as_ref() != Some(&want) {
+        rec.fail(format!("{}|FBig<2>::from({})|wrong-value|{}", P, how, cls), case(), fval(b.f2.repr()).show(), hex(&v.big));
+    }
+    if fb_rat(&b.f10).as_ref() != Some(&want) {
+        rec.fail(format!("{}|FBig<10>::from({})|wrong-value|{}", P, how, cls), case(), fval(b.f10.repr()).show(), hex(&v.big));
+    }
+    let (n, d) = rb_rat(&b.r);
+    if n != v.big || !d.is_one() {
+        rec.fail(format!("{}|RBig::from({})|wrong-value|{}", P, how, cls), case(), format!("{}/{}", n, d), hex(&v.big));
+    }
+    let (n, d) = rx_rat(&b.x);
+    if !d.is_positive() || Rat::new(n.clone(), d.clone()) != want {
+        rec.fail(format!("{}|Relaxed::from({})|wrong-value|{}", P, how, cls), case(), format!("{}/{}", n, d), hex(&v.big));
+    }
+}
+
+fn src_prim<S: Prim>(rec: &mut Rec, v: &IVal) -> Option<Bigs> {
+    if !fits::<S>(v) {
+        rec.hit("skipped:value-not-in-source-type");
+        return None;
+    }
+    let x = S::make(v.neg, v.mag.unwrap());
+    let r = guard(|| {
+        let u = x.to_u();
+        (u, Bigs { u: None, i: x.to_i(), f2: x.to_f2(), f10: x.to_f10(), r: x.to_r(), x: x.to_x() })
+    });
+    match r {
+        Ok((u, mut b)) => {
+            rec.step();
+            match u {
+                Ok(u) if !v.neg => b.u = Some(u),
+                Ok(u) => rec.fail(format!("{}|UBig::try_from({})|succeeded-with-changed-value|negative", P, S::NAME), format!("{:?}", x), hexu(&u_to_ref(&u)), "Err(OutOfBounds)"),
+                Err(e) if v.neg => rec.hit(err_name(e)),
+                Err(e) => rec.fail(format!("{}|UBig::try_from({})|refused-representable|nonneg", P, S::NAME), format!("{:?}", x), format!("{:?}", e), hex(&v.big)),
+            }
+            verify_bigs(rec, S::NAME, v, &b);
+            Some(b)
+        }
+        Err(p) => {
+            rec.fail(format!("{}|From<{}>|panic|{}", P, S::NAME, v.size_class()), format!("{:?}", x), p, "conversion to UBig/IBig/FBig/RBig");
+            None
+        }
+    }
+}
+
+fn dst_prim<T: Prim>(rec: &mut Rec, v: &IVal, b: &Bigs) {
+    let want: Option<T> = if fits::<T>(v) { Some(T::make(v.neg, v.mag.unwrap())) } else { None };
+    let cls = format!("{},{}", if v.neg { "neg" } else { "nonneg" }, if want.is_some() { "fits" } else { "does-not-fit" });
+    let one = |rec: &mut Rec, from: &str, got: Result<Result<T, ConversionError>, String>| {
+        rec.step();
+        let site = || format!("{}::try_from({})", T::NAME, from);
+        let case = || format!("{} -> {} of {}", from, T::NAME, hex(&v.big));
+        match (got, want) {
+            (Ok(Ok(g)), Some(w)) if g == w => rec.hit("ok"),
+            (Ok(Ok(g)), Some(w)) => rec.fail(format!("{}|{}|wrong-value|{}", P, site(), cls), case(), format!("{:?}", g), format!("{:?}", w)),
+            (Ok(Ok(g)), None) => rec.fail(format!("{}|{}|succeeded-with-changed-value|{}", P, site(), cls), case(), format!("Ok({:?})", g), "Err(OutOfBounds)"),
+            (Ok(Err(e)), None) => rec.hit(err_name(e)),
+            (Ok(Err(e)), Some(w)) => rec.fail(format!("{}|{}|refused-representable|{}", P, site(), cls), case(), format!("Err({:?})", e), format!("Ok({:?}) (round trip {} -> {} -> {} must give the original)", w, T::NAME, from, T::NAME)),
+            (Err(p), _) => rec.fail(format!("{}|{}|panic|{}", P, site(), cls), case(), p, format!("{:?}", want)),
+        }
+    };
+    if let Some(u) = &b.u {
+        one(rec, "&UBig", guard(|| T::from_u(u)));
+        one(rec, "UBig", guard(|| T::from_u_val(u.clone())));
+    }
+    one(rec, "&IBig", guard(|| T::from_i(&b.i)));
+    one(rec, "IBig", guard(|| T::from_i_val(b.i.clone())));
+    one(rec, "FBig<2>", guard(|| T::from_f2(b.f2.clone())));
+    one(rec, "FBig<10>", guard(|| T::from_f10(b.f10.clone())));
+    one(rec, "RBig", guard(|| T::from_r(b.r.clone())));
+    one(rec, "Relaxed", guard(|| T::from_x(b.x.clone())));
+}
+
+/// conversions among the big types themselves for an integer value
+fn big_to_big(rec: &mut Rec, v: &IVal, b: &Bigs) {
+    let cls = format!("{},{}", if v.neg { "neg" } else { "nonneg" }, v.size_class());
+    let case = || format!("integer {}", hex(&v.big));
+    let want_i = |rec: &mut Rec, site: &str, got: Result<Result<IBig, ConversionError>, String>| {
+        rec.step();
+        match got {
+            Ok(Ok(g)) if i_to_ref(&g) == v.big => rec.hit("ok"),
+            Ok(Ok(g)) => rec.fail(format!("{}|{}|wrong-value|{}", P, site, cls), case(), hex(&i_to_ref(&g)), hex(&v.big)),
+            Ok(Err(e)) => rec.fail(format!("{}|{}|refused-representable|integer", P, site), case(), format!("Err({:?})", e), format!("Ok({}): the round trip integer -> target -> integer must give the original", hex(&v.big))),
+            Err(p) => rec.fail(format!("{}|{}|panic|{}", P, site, cls), case(), p, hex(&v.big)),
+        }
+    };
+    want_i(rec, "IBig::try_from(FBig<2>)", guard(|| IBig::try_from(b.f2.clone())));
+    want_i(rec, "IBig::try_from(FBig<10>)", guard(|| IBig::try_from(b.f10.clone())));
+    want_i(rec, "IBig::try_from(RBig)", guard(|| IBig::try_from(b.r.clone())));
+    want_i(rec, "IBig::try_from(Relaxed)", guard(|| IBig::try_from(b.x.clone())));
+    if let Some(u) = &b.u {
+        want_i(rec, "IBig::from(UBig)", guard(|| Ok(IBig::from(u.clone()))));
+    }
+    let want_u = |rec: &mut Rec, site: &str, got: Result<Result<UBig, ConversionError>, String>| {
+        rec.step();
+        match got {
+            Ok(Ok(g)) if !v.neg && BigInt::from(u_to_ref(&g)) == v.big => rec.hit("ok"),
+            Ok(Ok(g)) => rec.fail(format!("{}|{}|{}|{}", P, site, if v.neg { "succeeded-with-changed-value" } else { "wrong-value" }, cls), case(), hexu(&u_to_ref(&g)), if v.neg { "Err(OutOfBounds)".to_string() } else { hex(&v.big) }),
+            Ok(Err(e)) if v.neg => rec.hit(err_name(e)),
+            Ok(Err(e)) => rec.fail(format!("{}|{}|refused-representable|nonneg-integer", P, site), case(), format!("Err({:?})", e), format!("Ok({}): the round trip UBig -> source type -> UBig must give the original", hex(&v.big))),
+            Err(p) => rec.fail(format!("{}|{}|panic|{}", P, site, cls), case(), p, hex(&v.big)),
+        }
+    };
+    want_u(rec, "UBig::try_from(IBig)", guard(|| UBig::try_from(b.i.clone())));
+    want_u(rec, "UBig::try_from(FBig<2>)", guard(|| UBig::try_from(b.f2.clone())));
+    want_u(rec, "UBig::try_from(FBig<10>)", guard(|| UBig::try_from(b.f10.clone())));
+    want_u(rec, "UBig::try_from(RBig)", guard(|| UBig::try_from(b.r.clone())));
+    want_u(rec, "UBig::try_from(Relaxed)", guard(|| UBig::try_from(b.x.clone())));
+    // FBig <-> RBig for an integer value
+    rec.steps(2);
+    match guard(|| RBig::try_from(b.f10.clone())) {
+        Ok(Ok(r)) => {
+            let (n, d) = rb_rat(&r);
+            if n != v.big || !d.is_one() {
+                rec.fail(format!("{}|RBig::try_from(FBig<10>)|wrong-value|{}", P, cls), case(), format!("{}/{}", n, d), hex(&v.big));
+            }
+        }
+        Ok(Err(e)) => rec.fail(format!("{}|RBig::try_from(FBig<10>)|refused-representable|{}", P, cls), case(), format!("{:?}", e), hex(&v.big)),
+        Err(p) => rec.fail(format!("{}|RBig::try_from(FBig<10>)|panic|{}", P, cls), case(), p, hex(&v.big)),
+    }
+    match guard(|| F2::from(b.r.clone())) {
+        Ok(f) => {
+            if fb_rat(&f) != Some(Rat::int(v.big.clone())) {
+                rec.fail(format!("{}|FBig<2>::from(RBig)|wrong-value|integer,{}", P, cls), case(), fval(f.repr()).show(), hex(&v.big));
+            }
+        }
+        Err(p) => rec.fail(format!("{}|FBig<2>::from(RBig)|panic|integer,{}", P, cls), case(), p, hex(&v.big)),
+    }
+}
+
+fn run_value(rec: &mut Rec, v: &IVal, b: &Bigs) {
+    all_prims!(dst_prim, (rec, v, b));
+    big_to_big(rec, v, b);
+    if !v.big.is_zero() {
+        rec.nontrivial();
+    }
+}
+
+fn src_and_run<S: Prim>(rec: &mut Rec, v: &IVal) {
+    if let Some(b) = src_prim::<S>(rec, v) {
+        run_value(rec, v, &b);
+        rec.sample(|| format!("{} {} -> UBig/IBig/FBig<2>/FBig<10>/RBig/Relaxed -> each of the 12 primitive types", S::NAME, v.big));
+    }
+}
+
+fn boundary_values(ctx: &Ctx) -> Vec<IVal> {
+    let mut s: BTreeSet<BigInt> = BTreeSet::new();
+    for k in 0..=131u64 {
+        let p = BigInt::one() << k;
+        for d in [-1i32, 0, 1] {
+            s.insert(&p + d);
+            s.insert(-(&p + d));
+        }
+    }
+    for k in [191u64, 192, 193, 255, 256, 257, 1023, 1024, 1025] {
+        let p = BigInt::one() << k;
+        for d in [-1i32, 0, 1] {
+            s.insert(&p + d);
+            s.insert(-(&p + d));
+        }
+    }
+    for sh in shapes(&[1, 2, 3, 4, 5, 24], &["ones", "top1p1", "alt", "lcgA", "lcgSeed"], ctx.seed) {
+        s.insert(BigInt::from(sh.v.clone()));
+        s.insert(-BigInt::from(sh.v));
+    }
+    s.into_iter().map(IVal::of).collect()
+}
+
+fn sweep_prims(ctx: &mut Ctx) {
+    // S1: every value of the four narrow types as source
+    let n1 = 256 + 256 + 65536 + 65536u64;
+    ctx.sweep("prim.all-8-16-bit", n1, |i, rec| {
+        if i < 256 {
+            src_and_run::<u8>(rec, &IVal::small(false, i as u128));
+        } else if i < 512 {
+            let x = (i - 256) as u8 as i8;
+            src_and_run::<i8>(rec, &IVal::small(x < 0, x.unsigned_abs() as u128));
+        } else if i < 512 + 65536 {
+            src_and_run::<u16>(rec, &IVal::small(false, (i - 512) as u128));
+        } else {
+            let x = (i - 512 - 65536) as u16 as i16;
+            src_and_run::<i16>(rec, &IVal::small(x < 0, x.unsigned_abs() as u128));
+        }
+    });
+    ctx.require_classes("prim.all-8-16-bit", &["ok", "refused:OutOfBounds"]);
+    // S2: boundary values x (12 source types + construction from the reference words)
+    let vals = boundary_values(ctx);
+    let nv = vals.len() as u64;
+    ctx.bound("prim.boundary_values", nv);
+    ctx.sweep("prim.boundary", nv * 13, |i, rec| {
+        let [iv, is] = unflatten(i, [nv, 13]);
+        let v = &vals[iv];
+        if is < 12 {
+            with_prim!(is, src_and_run, (rec, v));
+        } else {
+            let i = ref_to_i(&v.big);
+            let b = guard(|| Bigs { u: if v.neg { None } else { Some(ref_to_u(v.big.magnitude())) }, i: i.clone(), f2: F2::from(i.clone()), f10: F10::from(i.clone()), r: RBig::from(i.clone()), x: Relaxed::from(i.clone()) });
+            match b {
+                Ok(mut b) => {
+                    verify_bigs(rec, "IBig", v, &b);
+                    if let Some(u) = b.u.clone() {
+                        // UBig sources as well
+                        rec.steps(2);
+                        let (f, r) = (guard(|| F10::from(u.clone())), guard(|| RBig::from(u.clone())));
+                        if f.as_ref().ok().and_then(fb_rat) != Some(Rat::int(v.big.clone())) {
+                            rec.fail(format!("{}|FBig<10>::from(UBig)|wrong-value|{}", P, v.size_class()), hex(&v.big), format!("{:?}", f.map(|f| fval(f.repr()).show())), hex(&v.big));
+                        }
+                        if r.as_ref().ok().map(rb_rat) != Some((v.big.clone(), BigInt::one())) {
+                            rec.fail(format!("{}|RBig::from(UBig)|wrong-value|{}", P, v.size_class()), hex(&v.big), format!("{:?}", r.map(|r| rb_rat(&r))), hex(&v.big));
+                        }
+                        b.u = Some(u);
+                    }
+                    run_value(rec, v, &b);
+                    rec.hit(v.size_class());
+                }
+                Err(p) => rec.fail(format!("{}|From<IBig>|panic|{}", P, v.size_class()), hex(&v.big), p, "conversion to FBig/RBig"),
+            }
+        }
+    });
+    ctx.require_classes("prim.boundary", &["ok", "refused:OutOfBounds", "le64bits", "le128bits", "gt128bits", "skipped:value-not-in-source-type"]);
+}
+
+// ---------------------------------------------------------------------------------------------
+// (b) + (g): floats -> big types -> floats, decode/encode, on exactly representable values
+
+trait DF: IeeeF {
+    const NAME: &'static str;
+    fn decode_(self) -> Result<(i64, i64), std::num::FpCategory>;
+    fn encode_(m: i64, e: i16) -> Approximation<Self, Sign>;
+    fn u_from(self) -> Result<UBig, ConversionError>;
+    fn i_from(self) -> Result<IBig, ConversionError>;
+    fn f_from(self) -> Result<F2, ConversionError>;
+    fn p_from(self) -> Result<Repr<2>, ConversionError>;
+    fn r_from(self) -> Result<RBig, ConversionError>;
+    fn x_from(self) -> Result<Relaxed, ConversionError>;
+    fn back_u(v: UBig) -> Result<Self, ConversionError>;
+    fn back_i(v: IBig) -> Result<Self, ConversionError>;
+    fn back_f<R: dashu_float::round::Round>(v: FBig<R, 2>) -> Result<Self, ConversionError>;
+    fn back_p(v: Repr<2>) -> Result<Self, ConversionError>;
+    fn back_r(v: RBig) -> Result<Self, ConversionError>;
+    fn back_x(v: Relaxed) -> Result<Self, ConversionError>;
+    fn u_to(v: &UBig) -> Approximation<Self, Sign>;
+    fn i_to(v: &IBig) -> Approximation<Self, Sign>;
+    fn r_to(v: &RBig) -> Approximation<Self, Sign>;
+    fn x_to(v: &Relaxed) -> Approximation<Self, Sign>;
+    fn r_fast(v: &RBig) -> Self;
+    fn x_fast(v: &Relaxed) -> Self;
+    fn f_to<R: dashu_float::round::Round, const B: Word>(v: &FBig<R, B>) -> Approximation<Self, Rounding>;
+    fn p_to<const B: Word>(v: &Repr<B>) -> Approximation<Self, Rounding>;
+}
+macro_rules! impl_df {
+    ($t:ty, $to:ident, $fast:ident) => {
+        impl DF for $t {
+            const NAME: &'static str = stringify!($t);
+            fn decode_(self) -> Result<(i64, i64), std::num::FpCategory> { self.decode().map(|(m, e)| (m as i64, e as i64)) }
+            fn encode_(m: i64, e: i16) -> Approximation<Self, Sign> { <$t>::encode(m as _, e) }
+            fn u_from(self) -> Result<UBig, ConversionError> { UBig::try_from(self) }
+            fn i_from(self) -> Result<IBig, ConversionError> { IBig::try_from(self) }
+            fn f_from(self) -> Result<F2, ConversionError> { F2::try_from(self) }
+            fn p_from(self) -> Result<Repr<2>, ConversionError> { Repr::<2>::try_from(self) }
+            fn r_from(self) -> Result<RBig, ConversionError> { RBig::try_from(self) }
+            fn x_from(self) -> Result<Relaxed, ConversionError> { Relaxed::try_from(self) }
+            fn back_u(v: UBig) -> Result<Self, ConversionError> { <$t>::try_from(v) }
+            fn back_i(v: IBig) -> Result<Self, ConversionError> { <$t>::try_from(v) }
+            fn back_f<R: dashu_float::round::Round>(v: FBig<R, 2>) -> Result<Self, ConversionError> { <$t>::try_from(v) }
+            fn back_p(v: Repr<2>) -> Result<Self, ConversionError> { <$t>::try_from(v) }
+            fn back_r(v: RBig) -> Result<Self, ConversionError> { <$t>::try_from(v) }
+            fn back_x(v: Relaxed) -> Result<Self, ConversionError> { <$t>::try_from(v) }
+            fn u_to(v: &UBig) -> Approximation<Self, Sign> { v.$to() }
+            fn i_to(v: &IBig) -> Approximation<Self, Sign> { v.$to() }
+            fn r_to(v: &RBig) -> Approximation<Self, Sign> { v.$to() }
+            fn x_to(v: &Relaxed) -> Approximation<Self, Sign> { v.$to() }
+            fn r_fast(v: &RBig) -> Self { v.$fast() }
+            fn x_fast(v: &Relaxed) -> Self { v.$fast() }
+            fn f_to<R: dashu_float::round::Round, const B: Word>(v: &FBig<R, B>) -> Approximation<Self, Rounding> { v.$to() }
+            fn p_to<const B: Word>(v: &Repr<B>) -> Approximation<Self, Rounding> { v.$to() }
+        }
+    };
+}
+impl_df!(f32, to_f32, to_f32_fast);
+impl_df!(f64, to_f64, to_f64_fast);
+
+fn words_to_u128(w: &[Word]) -> Option<u128> {
+    let mut v = 0u128;
+    for (i, &x) in w.iter().enumerate() {
+        if i * WBITS < 128 {
+            v |= (x as u128) << (i * WBITS);
+        } else if x != 0 {
+            return None;
+        }
+    }
+    Some(v)
+}
+/// do the words hold m * 2^sh ?
+fn words_are(w: &[Word], m: u64, sh: u64) -> bool {
+    if m == 0 {
+        return w.iter().all(|x| *x == 0);
+    }
+    if sh + 64 <= 128 {
+        words_to_u128(w) == Some((m as u128) << sh)
+    } else {
+        words_to_ref(w) == (BigUint::from(m) << sh)
+    }
+}
+fn same_float<F: IeeeF>(a: F, b: F) -> bool {
+    let m = !(1u64 << if F::FMT.mant == 24 { 31 } else { 63 });
+    a.bits64() == b.bits64() || (a.bits64() & m == 0 && b.bits64() & m == 0)
+}
+/// is the bit distance between two floats of the same sign (or zeros) at most one?
+fn within_one_ulp<F: IeeeF>(a: F, b: F) -> bool {
+    let m = !(1u64 << if F::FMT.mant == 24 { 31 } else { 63 });
+    let (x, y) = (a.bits64() & m, b.bits64() & m);
+    (same_float(a, b)) || ((a.bits64() & !m) == (b.bits64() & !m) && x.abs_diff(y) <= 1) || (x + y <= 1)
+}
+
+/// call-site name, formatted only when needed: template with `{f}` for the float type
+#[derive(Clone, Copy)]
+struct Site(&'static str, &'static str);
+impl std::fmt::Display for Site {
+    fn fmt(&self, f: &mut std::fmt::Formatter) -> std::fmt::Result {
+        f.write_str(&self.0.replace("{f}", self.1))
+    }
+}
+
+/// outcome of one lossless-or-refused conversion
+fn lossless<T>(rec: &mut Rec, site: Site, class: &str, case: &dyn Fn() -> String, got: Result<Result<T, ConversionError>, String>, allowed: bool, same: impl Fn(&T) -> bool, show: impl Fn(&T) -> String) -> Option<T> {
+    rec.step();
+    match got {
+        Ok(Ok(t)) => {
+            if allowed && same(&t) {
+                Some(t)
+            } else {
+                if saturated(rec, site.0, site.1, if allowed { "wrong-value" } else { "succeeded-with-changed-value" }, class) {
+                    return None;
+                }
+                rec.fail(format!("{}|{}|{}|{}", P, site, if allowed { "wrong-value" } else { "succeeded-with-changed-value" }, class), case(), format!("Ok({})", show(&t)), if allowed { "the source value, or a refusal" } else { "Err(OutOfBounds | LossOfPrecision): the target type cannot hold the source value" });
+                None
+            }
+        }
+        Ok(Err(_)) => {
+            if allowed && !saturated(rec, site.0, site.1, "refusal", "") {
+                rec.hit(&format!("conservative-refusal:{}", site));
+            }
+            None
+        }
+        Err(p) => {
+            if !saturated(rec, site.0, site.1, "panic", class) {
+                rec.fail(format!("{}|{}|panic|{}", P, site, class), case(), p, "Ok(source value) or Err(..)");
+            }
+            None
+        }
+    }
+}
+
+fn back<F: DF>(rec: &mut Rec, site: Site, class: &str, case: &dyn Fn() -> String, got: Result<Result<F, ConversionError>, String>, f: F) {
+    rec.step();
+    match got {
+        Ok(Ok(g)) if same_float(g, f) => {}
+        Ok(Ok(g)) => {
+            if !saturated(rec, site.0, site.1, "round-trip-changed", class) {
+                rec.fail(format!("{}|{}|round-trip-changed|{}", P, site, class), case(), g.show(), f.show())
+            }
+        }
+        Ok(Err(_)) => {
+            if !saturated(rec, site.0, site.1, "refusal", "") {
+                rec.hit(&format!("conservative-refusal:{}", site))
+            }
+        }
+        Err(p) => {
+            if !saturated(rec, site.0, site.1, "panic", class) {
+                rec.fail(format!("{}|{}|panic|{}", P, site, class), case(), p, f.show())
+            }
+        }
+    }
+}
+
+fn want_exact<F: DF, E: std::fmt::Debug>(rec: &mut Rec, site: Site, class: &str, case: &dyn Fn() -> String, got: Result<Approximation<F, E>, String>, f: F) {
+    rec.step();
+    match got {
+        Ok(Approximation::Exact(g)) if same_float(g, f) => {}
+        Ok(_) | Err(_) if saturated(rec, site.0, site.1, "not-exact", class) => {}
+        Ok(Approximation::Exact(g)) => rec.fail(format!("{}|{}|wrong-value|{}", P, site, class), case(), format!("Exact({})", g.show()), format!("Exact({})", f.show())),
+        Ok(Approximation::Inexact(g, e)) => rec.fail(format!("{}|{}|{}|{}", P, site, if same_float(g, f) { "wrong-flag:inexact-but-exact" } else { "wrong-value" }, class), case(), format!("Inexact({}, {:?})", g.show(), e), format!("Exact({})", f.show())),
+        Err(p) => rec.fail(format!("{}|{}|panic|{}", P, site, class), case(), p, format!("Exact({})", f.show())),
+    }
+}
+
+fn float_case<F: DF>(rec: &mut Rec, f: F, extras: bool) {
+    let fmt = F::FMT;
+    let parts = parts_of(f);
+    let case = || format!("{} {}", F::NAME, f.show());
+    let case: &dyn Fn() -> String = &case;
+    let site = |s: &'static str| Site(s, F::NAME);
+    // decode
+    rec.step();
+    let dec = guard(|| f.decode_());
+    let dec_ok = match (&dec, parts) {
+        (Ok(Ok((m, e))), Some((neg, pm, pe))) => *m == if neg { -(pm as i64) } else { pm as i64 } && *e == pe,
+        (Ok(Err(c)), None) => (*c == std::num::FpCategory::Nan) == (f != f),
+        _ => false,
+    };
+    if !dec_ok {
+        rec.fail(format!("{}|{}::decode|wrong-value|{}", P, F::NAME, if parts.is_none() { "nan-or-inf" } else { "finite" }), case(), format!("{:?}", dec), format!("{:?}", parts));
+    }
+    let (neg, m, e) = match parts {
+        Some(p) => p,
+        None => {
+            let is_nan = f != f;
+            let cls = if is_nan { "nan" } else { "inf" };
+            rec.hit(cls);
+            lossless(rec, site("UBig::try_from({f})"), cls, case, guard(|| f.u_from()), false, |_| false, |u| hexu(&u_to_ref(u)));
+            lossless(rec, site("IBig::try_from({f})"), cls, case, guard(|| f.i_from()), false, |_| false, |u| hex(&i_to_ref(u)));
+            lossless(rec, site("RBig::try_from({f})"), cls, case, guard(|| f.r_from()), false, |_| false, |r| format!("{:?}", rb_rat(r)));
+            lossless(rec, site("Relaxed::try_from({f})"), cls, case, guard(|| f.x_from()), false, |_| false, |r| format!("{:?}", rx_rat(r)));
+            let infneg = f.bits64() >> (if fmt.mant == 24 { 31 } else { 63 }) == 1;
+            let fb = lossless(rec, site("FBig<2>::try_from({f})"), cls, case, guard(|| f.f_from()), !is_nan, |v| v.repr().is_infinite() && (v.repr().sign() == Sign::Negative) == infneg, |v| format!("{:?}", v.repr()));
+            lossless(rec, site("Repr<2>::try_from({f})"), cls, case, guard(|| f.p_from()), !is_nan, |v| v.is_infinite() && (v.sign() == Sign::Negative) == infneg, |v| format!("{:?}", v));
+            if let Some(fb) = fb {
+                // documented: the conversion of an infinity is Inexact(inf, NoOp)
+                rec.step();
+                match guard(|| F::f_to(&fb)) {
+                    Ok(Approximation::Inexact(g, Rounding::NoOp)) if same_float(g, f) => {}
+                    o => rec.fail(format!("{}|FBig<2>::to_{}|wrong-value|inf", P, F::NAME), case(), format!("{:?}", o), format!("Inexact({}, NoOp) as documented", f.show())),
+                }
+            }
+            return;
+        }
+    };
+    let tz = if m == 0 { 0 } else { m.trailing_zeros() as i64 };
+    let int_ok = m == 0 || e >= 0 || tz >= -e;
+    let sub = m != 0 && m < (1u64 << (fmt.mant - 1));
+    let kind = if m == 0 { "zero" } else if !int_ok { if sub { "subnormal" } else { "non-integer" } } else if e + (64 - m.leading_zeros() as i64) <= fmt.mant as i64 { "integer-le-mant-bits" } else { "integer-gt-mant-bits" };
+    // histogram class with the sign; signature class without it
+    rec.hit(match (neg, kind) {
+        (false, "zero") => "pos,zero",
+        (true, "zero") => "neg,zero",
+        (false, "subnormal") => "pos,subnormal",
+        (true, "subnormal") => "neg,subnormal",
+        (false, "non-integer") => "pos,non-integer",
+        (true, "non-integer") => "neg,non-integer",
+        (false, "integer-le-mant-bits") => "pos,integer-le-mant-bits",
+        (true, "integer-le-mant-bits") => "neg,integer-le-mant-bits",
+        (false, _) => "pos,integer-gt-mant-bits",
+        (true, _) => "neg,integer-gt-mant-bits",
+    });
+    let cls = if kind == "subnormal" { "non-integer" } else { kind };
+    // the integer value, as (odd-or-not mantissa, shift)
+    let (im, ish) = if m == 0 { (0u64, 0u64) } else if e >= 0 { (m, e as u64) } else { (m >> (-e).min(63) as u32, 0) };
+    // encode(decode(f)) == Exact(f)
+    if let Ok(Ok((dm, de))) = dec {
+        want_exact(rec, site("{f}::encode(decode)"), cls, case, guard(|| F::encode_(dm, de as i16)), f);
+    }
+    let u = lossless(rec, site("UBig::try_from({f})"), cls, case, guard(|| f.u_from()), int_ok && (!neg || m == 0), |u| words_are(u.as_words(), im, ish), |u| hexu(&u_to_ref(u)));
+    let i = lossless(rec, site("IBig::try_from({f})"), cls, case, guard(|| f.i_from()), int_ok, |i| { let (s, w) = i.as_sign_words(); words_are(w, im, ish) && (m == 0 || (s == Sign::Negative) == neg) }, |i| hex(&i_to_ref(i)));
+    // normalised odd mantissa and exponent of x
+    let (om, oe) = if m == 0 { (0u64, 0i64) } else { (m >> tz, e + tz) };
+    let repr_same = |r: &Repr<2>| {
+        if r.is_infinite() {
+            return false;
+        }
+        let (s, w) = r.significand().as_sign_words();
+        let sm = match words_to_u128(w) {
+            Some(v) if v <= u64::MAX as u128 => v as u64,
+            _ => return false,
+        };
+        if m == 0 {
+            return sm == 0;
+        }
+        if sm == 0 || (s == Sign::Negative) != neg {
+            return false;
+        }
+        let z = sm.trailing_zeros();
+        (sm >> z) == om && r.exponent() as i64 + z as i64 == oe
+    };
+    let fb = lossless(rec, site("FBig<2>::try_from({f})"), cls, case, guard(|| f.f_from()), true, |v| repr_same(v.repr()), |v| fval(v.repr()).show());
+    let pr = if extras { lossless(rec, site("Repr<2>::try_from({f})"), cls, case, guard(|| f.p_from()), true, |v| repr_same(v), |v| fval(v).show()) } else { None };
+    let rat_same = |n: &IBig, d: &UBig, canon: bool| {
+        let (s, nw) = n.as_sign_words();
+        let dw = d.as_words();
+        // denominator must be a power of two
+        let mut k: i64 = -1;
+        for (j, &x) in dw.iter().enumerate() {
+            if x != 0 {
+                if k >= 0 || !x.is_power_of_two() {
+                    return false;
+                }
+                k = (j * WBITS) as i64 + x.trailing_zeros() as i64;
+            }
+        }
+        if k < 0 {
+            return false;
+        }
+        if m == 0 {
+            return nw.iter().all(|x| *x == 0) && (!canon || k == 0);
+        }
+        if (s == Sign::Negative) != neg {
+            return false;
+        }
+        // numerator = om * 2^z
+        let mut z: i64 = 0;
+        for (j, &x) in nw.iter().enumerate() {
+            if x != 0 {
+                z = (j * WBITS) as i64 + x.trailing_zeros() as i64;
+                break;
+            }
+        }
+        if canon && z > 0 && k > 0 {
+            return false;
+        }
+        z - k == oe && words_are(nw, om, z as u64)
+    };
+    let rb = lossless(rec, site("RBig::try_from({f})"), cls, case, guard(|| f.r_from()), true, |r| rat_same(r.numerator(), r.denominator(), true), |r| format!("{:?}", rb_rat(r)));
+    let rx = if extras { lossless(rec, site("Relaxed::try_from({f})"), cls, case, guard(|| f.x_from()), true, |r| rat_same(r.numerator(), r.denominator(), false), |r| format!("{:?}", rx_rat(r))) } else { None };
+    // the lossy API on an exactly representable value: Exact(f); and the way back
+    if let Some(u) = u {
+        want_exact(rec, site("UBig::to_{f}"), cls, case, guard(|| F::u_to(&u)), f);
+        back(rec, site("{f}::try_from(UBig)"), cls, case, guard(|| F::back_u(u)), f);
+    }
+    if let Some(i) = i {
+        want_exact(rec, site("IBig::to_{f}"), cls, case, guard(|| F::i_to(&i)), f);
+        back(rec, site("{f}::try_from(IBig)"), cls, case, guard(|| F::back_i(i)), f);
+    }
+    if let Some(fb) = fb {
+        want_exact(rec, site("FBig<2>::to_{f}"), cls, case, guard(|| F::f_to(&fb)), f);
+        if extras {
+            let fe: FBig<mode::HalfEven, 2> = fb.clone().with_rounding();
+            want_exact(rec, site("FBig<2>::to_{f}"), cls, case, guard(|| F::f_to(&fe)), f);
+            back(rec, site("{f}::try_from(FBig<2>)"), cls, case, guard(|| F::back_f(fe)), f);
+        }
+        back(rec, site("{f}::try_from(FBig<2>)"), cls, case, guard(|| F::back_f(fb)), f);
+    }
+    if let Some(pr) = pr {
+        want_exact(rec, site("Repr<2>::to_{f}"), cls, case, guard(|| F::p_to(&pr)), f);
+        back(rec, site("{f}::try_from(Repr<2>)"), cls, case, guard(|| F::back_p(pr)), f);
+    }
+    if let Some(rb) = rb {
+        want_exact(rec, site("RBig::to_{f}"), cls, case, guard(|| F::r_to(&rb)), f);
+        rec.step();
+        match guard(|| F::r_fast(&rb)) {
+            Ok(g) if within_one_ulp(g, f) => {}
+            Ok(g) => rec.fail(format!("{}|RBig::to_{}_fast|error>1ulp|{}", P, F::NAME, cls), case(), g.show(), f.show()),
+            Err(p) => rec.fail(format!("{}|RBig::to_{}_fast|panic|{}", P, F::NAME, cls), case(), p, f.show()),
+        }
+        if extras {
+            back(rec, site("{f}::try_from(RBig)"), "representable", case, guard(|| F::back_r(rb)), f);
+        }
+    }
+    if let Some(rx) = rx {
+        if extras {
+            want_exact(rec, site("Relaxed::to_{f}"), cls, case, guard(|| F::x_to(&rx)), f);
+            rec.step();
+            match guard(|| F::x_fast(&rx)) {
+                Ok(g) if within_one_ulp(g, f) => {}
+                Ok(g) => rec.fail(format!("{}|Relaxed::to_{}_fast|error>1ulp|{}", P, F::NAME, cls), case(), g.show(), f.show()),
+                Err(p) => rec.fail(format!("{}|Relaxed::to_{}_fast|panic|{}", P, F::NAME, cls), case(), p, f.show()),
+            }
+            back(rec, site("{f}::try_from(Relaxed)"), "representable", case, guard(|| F::back_x(rx)), f);
+        }
+    }
+    if m != 0 {
+        rec.nontrivial();
+    }
+}
+
+/// the other width: a value of one float type through the big types into the other float type
+fn cross_width(rec: &mut Rec, f: f64) {
+    let (neg, m, e) = match parts_of(f) {
+        Some(p) => p,
+        None => return,
+    };
+    let want = round_dyadic(m as u128, e, neg, F32, Mode::HalfEven);
+    let cls = class_of(&want, F32);
+    let rcls = if want.err == Equal { "representable" } else { "not-representable" };
+    let case = || format!("f64 {} -> big -> f32", f.show());
+    let case: &dyn Fn() -> String = &case;
+    if let Ok(Ok(r)) = guard(|| RBig::try_from(f)) {
+        chk_sign::<f32>(rec, "RBig::to_f32", &cls, case, guard(|| r.to_f32()), &want);
+        let rx = r.clone().relax();
+        chk_sign::<f32>(rec, "Relaxed::to_f32", &cls, case, guard(|| rx.to_f32()), &want);
+        rec.step();
+        let wf = f32::from_bits(bits_of(&want, F32) as u32);
+        match guard(|| r.to_f32_fast()) {
+            Ok(g) if within_one_ulp(g, wf) => {}
+            Ok(g) => rec.fail(format!("{}|RBig::to_f32_fast|error>1ulp|{}", P, cls), case(), g.show(), wf.show()),
+            Err(p) => rec.fail(format!("{}|RBig::to_f32_fast|panic|{}", P, cls), case(), p, wf.show()),
+        }
+        rec.step();
+        match guard(|| f32::try_from(r)) {
+            Ok(Ok(g)) if want.err == Equal && same_float(g, wf) => {}
+            Ok(Ok(g)) => rec.fail(format!("{}|f32::try_from(RBig)|succeeded-with-changed-value|{}", P, rcls), case(), g.show(), "Err(..)"),
+            Ok(Err(_)) => {
+                if want.err == Equal {
+                    rec.hit("conservative-refusal:f32::try_from(RBig)")
+                }
+            }
+            Err(p) => rec.fail(format!("{}|f32::try_from(RBig)|panic|{}", P, rcls), case(), p, "Ok or Err"),
+        }
+    }
+    if let Ok(Ok(i)) = guard(|| IBig::try_from(f)) {
+        // only integers arrive here (or wrongly truncated values, reported by float_case)
+        if m == 0 || e >= 0 || m.trailing_zeros() as i64 >= -e {
+            let bits = if m == 0 { 0 } else { 64 - m.leading_zeros() as i64 + e };
+            let icls = format!("{},{}", if bits <= 64 { "le64bits" } else if bits <= 128 { "le128bits" } else { "gt128bits" }, cls);
+            chk_sign::<f32>(rec, "IBig::to_f32", &icls, case, guard(|| i.to_f32()), &want);
+            if !neg {
+                if let Ok(Ok(u)) = guard(|| UBig::try_from(i.clone())) {
+                    chk_sign::<f32>(rec, "UBig::to_f32", &icls, case, guard(|| u.to_f32()), &want);
+                }
+            }
+            rec.step();
+            let wf = f32::from_bits(bits_of(&want, F32) as u32);
+            match guard(|| f32::try_from(i)) {
+                Ok(Ok(g)) if want.err == Equal && same_float(g, wf) => {}
+                Ok(Ok(g)) => rec.fail(format!("{}|f32::try_from(IBig)|succeeded-with-changed-value|{}", P, rcls), case(), g.show(), "Err(..)"),
+                Ok(Err(_)) => {
+                    if want.err == Equal {
+                        rec.hit("conservative-refusal:f32::try_from(IBig)")
+                    }
+                }
+                Err(p) => rec.fail(format!("{}|f32::try_from(IBig)|panic|{}", P, rcls), case(), p, "Ok or Err"),
+            }
+        }
+    }
+    if let Ok(Ok(fb)) = guard(|| FBig::<mode::HalfEven, 2>::try_from(f)) {
+        chk_rounding::<f32>(rec, "FBig<2>::to_f32", &format!("{},base2", range_group(&want, F32)), case, guard(|| fb.to_f32()), &want);
+        chk_rounding::<f32>(rec, "Repr<2>::to_f32", &format!("{},base2", range_group(&want, F32)), case, guard(|| fb.repr().to_f32()), &want);
+        rec.step();
+        let wf = f32::from_bits(bits_of(&want, F32) as u32);
+        match guard(|| f32::try_from(fb)) {
+            Ok(Ok(g)) if want.err == Equal && same_float(g, wf) => {}
+            Ok(Ok(g)) => rec.fail(format!("{}|f32::try_from(FBig<2>)|succeeded-with-changed-value|{}", P, rcls), case(), g.show(), "Err(..)"),
+            Ok(Err(_)) => {
+                if want.err == Equal {
+                    rec.hit("conservative-refusal:f32::try_from(FBig<2>)")
+                }
+            }
+            Err(p) => rec.fail(format!("{}|f32::try_from(FBig<2>)|panic|{}", P, rcls), case(), p, "Ok or Err"),
+        }
+    }
+}
+
+fn f64_mantissa_atoms(thorough: bool) -> Vec<u64> {
+    let mut s: BTreeSet<u64> = BTreeSet::new();
+    let full = (1u64 << 52) - 1;
+    for k in 0..52 {
+        s.insert(1u64 << k);
+        s.insert((1u64 << k) - 1);
+        s.insert(((1u64 << k) + 1) & full);
+        s.insert(full & !((1u64 << k) - 1));
+        s.insert(full ^ (1u64 << k));
+    }
+    for a in [0u64, 2, 3, 5, 6, 7, full, full - 1, 0xA_AAAA_AAAA_AAAA, 0x5_5555_5555_5555, 0x8_0000_0000_0001, 0x8_0000_1000_0000, 0x0_0000_1FFF_FFFF, 0x0_0000_2000_0000, 0x0_0000_2000_0001, 0x0_0000_3000_0000, 0xF_FFFF_F000_0000, 0xF_FFFF_E800_0000, 0x1234_5678_9ABC_D & full] {
+        s.insert(a);
+    }
+    if thorough {
+        let mut st = 0x1234_5678_9ABC_DEF1u64;
+        for _ in 0..600 {
+            st = st.wrapping_mul(6364136223846793005).wrapping_add(1442695040888963407);
+            s.insert((st >> 12) & full);
+        }
+    }
+    s.into_iter().collect()
+}
+
+fn sweep_floats(ctx: &mut Ctx) {
+    // f32: sign/exponent field (512) x mantissa blocks; each case walks 256 consecutive low bytes
+    let quick = ctx.quick();
+    // quick: mantissa = [4 free bits][3 bits 0][8 bits 0x00 or 0xFF][8 free bits]; thorough: all 23 bits
+    let hi_n: u64 = if quick { 16 * 2 } else { 1 << 15 };
+    ctx.bound("f32.patterns", 512 * hi_n * 256);
+    ctx.sweep("f32.bit-patterns", 512 * hi_n, |i, rec| {
+        let [se, hi] = unflatten(i, [512, hi_n]);
+        let base: u32 = if quick { (((hi >> 1) as u32) << 19) | if hi & 1 == 1 { 0xFF00 } else { 0 } } else { (hi as u32) << 8 };
+        for lo in 0..256u32 {
+            let bits = ((se as u32) << 23) | base | lo;
+            let f = f32::from_bits(bits);
+            float_case::<f32>(rec, f, quick || lo % 16 == 0 || lo == 255);
+            // widening: the same value must convert to the equal f64
+            if lo % 64 == 1 || lo == 255 {
+                if let (Ok(Ok(r)), Some(_)) = (guard(|| RBig::try_from(f)), parts_of(f)) {
+                    let case = || format!("f32 {} -> RBig/FBig -> f64", f.show());
+                    want_exact(rec, Site("RBig::to_f64", ""), "from-f32", &case, guard(|| r.to_f64()), f as f64);
+                    if let Ok(Ok(fb)) = guard(|| F2::try_from(f)) {
+                        want_exact(rec, Site("FBig<2>::to_f64", ""), "from-f32", &case, guard(|| fb.to_f64()), f as f64);
+                    }
+                }
+            }
+        }
+        rec.sample(|| format!("f32 bit patterns {:#010x}..={:#010x}: decode/encode, try_from into UBig/IBig/FBig<2>/Repr<2>/RBig/Relaxed, to_f32 of each, try_from back", ((se as u32) << 23) | base, ((se as u32) << 23) | base | 255));
+    });
+    ctx.require_classes("f32.bit-patterns", &["nan", "inf", "pos,zero", "neg,zero", "pos,subnormal", "neg,subnormal", "pos,non-integer", "neg,non-integer", "pos,integer-le-mant-bits", "neg,integer-gt-mant-bits", "pos,integer-gt-mant-bits"]);
+    // f64: all sign/exponent fields x mantissa atoms
+    let atoms = f64_mantissa_atoms(!quick);
+    let na = atoms.len() as u64;
+    ctx.bound("f64.mantissa_atoms", na);
+    ctx.sweep("f64.exponent-x-mantissa-atoms", 4096 * na, |i, rec| {
+        let [se, ia] = unflatten(i, [4096, na]);
+        let f = f64::from_bits(((se as u64) << 52) | atoms[ia]);
+        float_case::<f64>(rec, f, true);
+        cross_width(rec, f);
+        rec.sample(|| format!("f64 {}: decode/encode, try_from into the big types and back, to_f64 and to_f32 of each", f.show()));
+    });
+    ctx.require_classes("f64.exponent-x-mantissa-atoms", &["nan", "inf", "pos,zero", "neg,subnormal", "pos,non-integer", "neg,integer-le-mant-bits", "pos,integer-gt-mant-bits", "exact", "inexact:result-above", "inexact:result-below", "inexact:addone", "inexact:subone"]);
+}
+
+// ---------------------------------------------------------------------------------------------
+// (c) integers -> f32 / f64 (lossy, correctly rounded, error sign) and TryFrom<integer> for floats
+
+/// mantissa patterns of exactly `width` bits: top bit set, `top_free` free bits below it, `low_free`
+/// free lowest bits, the middle all zeros / all ones / alternating; plus every m < 2^small
+fn mant_set(width: u32, top_free: u32, low_free: u32, small: u32) -> Vec<u64> {
+    let mut v: BTreeSet<u64> = (0..(1u64 << small)).collect();
+    let mid_w = width - 1 - top_free - low_free;
+    let mid_mask = (1u64 << mid_w) - 1;
+    for t in 0..(1u64 << top_free) {
+        for mid in [0u64, mid_mask, 0xAAAA_AAAA_AAAA_AAAA & mid_mask] {
+            for l in 0..(1u64 << low_free) {
+                v.insert((1u64 << (width - 1)) | (t << (width - 1 - top_free)) | (mid << low_free) | l);
+            }
+        }
+    }
+    v.into_iter().collect()
+}
+
+fn int_to_float_case<F: DF>(rec: &mut Rec, mag: &BigUint) {
+    let fmt = F::FMT;
+    let size = match mag.bits() {
+        0..=64 => "le64bits",
+        65..=128 => "le128bits",
+        _ => "gt128bits",
+    };
+    let u = ref_to_u(mag);
+    for neg in [false, true] {
+        if neg && mag.is_zero() {
+            continue;
+        }
+        let want = round_big(mag, 0, neg, fmt, Mode::HalfEven);
+        let cls = format!("{},{}", size, class_of(&want, fmt));
+        rec.hit(range_class(&want, fmt));
+        if want.tie {
+            rec.hit("tie");
+        }
+        let case = || format!("{}{} -> {}", if neg { "-" } else { "" }, hexu(mag), F::NAME);
+        let case: &dyn Fn() -> String = &case;
+        let wf = F::from_bits64(bits_of(&want, fmt));
+        let i = IBig::from_parts(if neg { Sign::Negative } else { Sign::Positive }, u.clone());
+        if neg {
+            chk_sign::<F>(rec, if fmt.mant == 24 { "IBig::to_f32" } else { "IBig::to_f64" }, &cls, case, guard(|| F::i_to(&i)), &want);
+        } else {
+            chk_sign::<F>(rec, if fmt.mant == 24 { "UBig::to_f32" } else { "UBig::to_f64" }, &cls, case, guard(|| F::u_to(&u)), &want);
+            chk_sign::<F>(rec, if fmt.mant == 24 { "IBig::to_f32" } else { "IBig::to_f64" }, &cls, case, guard(|| F::i_to(&i)), &want);
+        }
+        // TryFrom: Ok only with the exact value
+        let rcls = if want.err == Equal { "representable" } else { "not-representable" };
+        let tf = |rec: &mut Rec, site: &'static str, got: Result<Result<F, ConversionError>, String>| {
+            rec.step();
+            match got {
+                Ok(Ok(g)) if want.err == Equal && same_float(g, wf) => rec.hit("try_from:ok"),
+                Ok(Ok(g)) => {
+                    if !saturated(rec, site, F::NAME, "succeeded-with-changed-value", rcls) {
+                        rec.fail(format!("{}|{}|succeeded-with-changed-value|{}", P, Site(site, F::NAME), rcls), case(), g.show(), if want.err == Equal { wf.show() } else { "Err(LossOfPrecision | OutOfBounds)".into() })
+                    }
+                }
+                Ok(Err(_)) => rec.hit(if want.err == Equal { "try_from:conservative-refusal" } else { "try_from:refused" }),
+                Err(p) => {
+                    if !saturated(rec, site, F::NAME, "panic", rcls) {
+                        rec.fail(format!("{}|{}|panic|{}", P, Site(site, F::NAME), rcls), case(), p, "Ok or Err")
+                    }
+                }
+            }
+        };
+        if !neg {
+            tf(rec, "{f}::try_from(UBig)", guard(|| F::back_u(u.clone())));
+        }
+        tf(rec, "{f}::try_from(IBig)", guard(|| F::back_i(i)));
+    }
+    if !mag.is_zero() {
+        rec.nontrivial();
+    }
+}
+
+fn sweep_int_to_float(ctx: &mut Ctx) {
+    let quick = ctx.quick();
+    // f32
+    let m32 = if quick { mant_set(26, 5, 6, 12) } else { mant_set(26, 9, 9, 16) };
+    let k32: Vec<u64> = (0..=4).chain(37..=41).chain(62..=66).chain(99..=105).collect();
+    let (nm, nk) = (m32.len() as u64, k32.len() as u64);
+    ctx.bound("int.to_f32.mantissas", nm);
+    ctx.sweep("int.to_f32", nm * nk, |i, rec| {
+        let [im, ik] = unflatten(i, [nm, nk]);
+        let (m, k) = (m32[im], k32[ik]);
+        let base = BigUint::from(m) << k;
+        let mut ts = vec![BigUint::zero()];
+        if k >= 1 {
+            ts.push(BigUint::one());
+        }
+        if k >= 2 {
+            ts.push((BigUint::one() << k) - 1u8);
+        }
+        for t in ts {
+            let v = &base + t;
+            int_to_float_case::<f32>(rec, &v);
+            if im % 8 == 0 {
+                int_to_float_case::<f64>(rec, &v);
+            }
+        }
+        rec.sample(|| format!("UBig/IBig {:#x}*2^{} + {{0, 1, 2^{}-1}}, both signs: to_f32, f32::try_from", m, k, k));
+    });
+    ctx.require_classes("int.to_f32", &["exact", "inexact:result-above", "inexact:result-below", "tie", "normal", "top-binade", "overflow", "try_from:ok", "try_from:refused"]);
+    if !quick {
+        // every 26-bit mantissa at four shifts
+        let ks = [0u64, 39, 64, 102];
+        ctx.sweep("int.to_f32.all-26-bit-mantissas", (1u64 << 18) * 4, |i, rec| {
+            let [hi, ik] = unflatten(i, [1 << 18, 4]);
+            let k = ks[ik];
+            for lo in 0..256u64 {
+                let m = ((hi as u64) << 8) | lo;
+                let base = BigUint::from(m) << k;
+                int_to_float_case::<f32>(rec, &base);
+                if k >= 2 {
+                    int_to_float_case::<f32>(rec, &(&base + 1u8));
+                    int_to_float_case::<f32>(rec, &(&base + ((BigUint::one() << k) - 1u8)));
+                }
+            }
+            rec.sample(|| format!("all 26-bit m in {:#x}..={:#x}, value m*2^{} + {{0, 1, 2^k-1}}", hi << 8, (hi << 8) | 255, k));
+        });
+    }
+    // f64
+    let m64 = if quick { mant_set(55, 5, 6, 12) } else { mant_set(55, 8, 8, 14) };
+    let k64: Vec<u64> = (0..=3).chain(9..=12).chain(60..=75).chain([500]).chain(966..=973).collect();
+    let (nm, nk) = (m64.len() as u64, k64.len() as u64);
+    ctx.bound("int.to_f64.mantissas", nm);
+    ctx.sweep("int.to_f64", nm * nk, |i, rec| {
+        let [im, ik] = unflatten(i, [nm, nk]);
+        let (m, k) = (m64[im], k64[ik]);
+        let base = BigUint::from(m) << k;
+        let mut ts = vec![BigUint::zero()];
+        if k >= 1 {
+            ts.push(BigUint::one());
+        }
+        if k >= 2 {
+            ts.push((BigUint::one() << k) - 1u8);
+        }
+        for t in ts {
+            let v = &base + t;
+            int_to_float_case::<f64>(rec, &v);
+            if im % 8 == 0 && k < 200 {
+                int_to_float_case::<f32>(rec, &v);
+            }
+        }
+        rec.sample(|| format!("UBig/IBig {:#x}*2^{} + {{0, 1, 2^{}-1}}, both signs: to_f64, f64::try_from", m, k, k));
+    });
+    ctx.require_classes("int.to_f64", &["exact", "inexact:result-above", "inexact:result-below", "tie", "normal", "top-binade", "overflow", "try_from:ok", "try_from:refused"]);
+}
+
+// ---------------------------------------------------------------------------------------------
+// (g) FloatEncoding::encode on arbitrary (mantissa, exponent)
+
+fn encode_one<F: DF>(rec: &mut Rec, m: i64, e: i16) {
+    let fmt = F::FMT;
+    let want = round_dyadic(m.unsigned_abs() as u128, e as i64, m < 0, fmt, Mode::HalfEven);
+    rec.step();
+    let got = guard(|| F::encode_(m, e));
+    let ok = match &got {
+        Ok(Approximation::Exact(v)) => match_val(*v, &want) == Some(Equal),
+        Ok(Approximation::Inexact(v, s)) => match match_val(*v, &want) {
+            Some(Greater) => *s == Sign::Positive,
+            Some(Less) => *s == Sign::Negative,
+            _ => false,
+        },
+        Err(_) => false,
+    };
+    if ok {
+        return;
+    }
+    // slow path: classify and report
+    let extreme = (e as i64).abs() > 2000;
+    let cls = format!("{}{}", class_of(&want, fmt), if extreme { ",exponent-near-i16-limit" } else { "" });
+    let site = if fmt.mant == 24 { "f32::encode" } else { "f64::encode" };
+    let case = || format!("{}({}, {})", site, m, e);
+    rec.transitions -= 1;
+    rec.validated -= 1;
+    chk_sign::<F>(rec, site, &cls, &case, got, &want);
+}
+
+fn sweep_encode(ctx: &mut Ctx) {
+    let quick = ctx.quick();
+    // f32: magnitude = [hi: 10 free bits][11 bits all 0 / all 1][lo: 10 free bits], both signs
+    let e32: Vec<i16> = [-32768i16, -32767, -200].into_iter().chain(-182..=-170).chain(-155..=-147).chain(-130..=-124).chain([-100, -31, -24, -23, -1, 0, 1, 64]).chain(90..=98).chain([104, 105]).chain(120..=129).chain([200, 32736, 32767]).collect();
+    let ne = e32.len() as u64;
+    let hi_n: u64 = if quick { 256 } else { 1024 };
+    ctx.bound("encode.f32.exponents", ne);
+    ctx.sweep("encode.f32", hi_n * 2 * ne, |i, rec| {
+        let [hi, mid, ie] = unflatten(i, [hi_n, 2, ne]);
+        // quick: the 10 hi bits take the 256 values with bits 2..3 clear
+        let hi = if quick { ((hi as u32 & 0xfc) << 2) | (hi as u32 & 3) } else { hi as u32 };
+        let e = e32[ie];
+        let extreme = (e as i32).abs() > 2000;
+        let base = (hi << 21) | if mid == 1 { 0x7ff << 10 } else { 0 };
+        for lo in 0..(if extreme { 8u32 } else { 1024 }) {
+            let mag = base | lo;
+            encode_one::<f32>(rec, mag as i64, e);
+            encode_one::<f32>(rec, -(mag as i64), e);
+        }
+        if hi == 0 && mid == 0 {
+            encode_one::<f32>(rec, i32::MIN as i64, e);
+        }
+        rec.nontrivial();
+        rec.sample(|| format!("f32::encode(+-m, {}) for m in {:#x}..={:#x}", e, base, base | 1023));
+    });
+    if !quick {
+        // all 2^32 mantissas at the key exponents
+        let key: [i16; 12] = [-175, -152, -150, -149, -140, -126, -30, 0, 97, 98, 104, 127];
+        ctx.sweep("encode.f32.all-mantissas", (1u64 << 20) * 12, |i, rec| {
+            let [hi, ie] = unflatten(i, [1 << 20, 12]);
+            for lo in 0..4096u32 {
+                let m = (((hi as u32) << 12) | lo) as i32;
+                encode_one::<f32>(rec, m as i64, key[ie]);
+            }
+            rec.nontrivial();
+        });
+    }
+    // f64: magnitudes by bit length x [4 free top bits][middle 0 / 1 / alternating][6 free low bits]
+    let e64: Vec<i16> = [-32768i16, -32767, -2000].into_iter().chain(-1140..=-1060).chain(-1030..=-1015).chain([-500, -64, -53, -52, -1, 0, 1, 11, 500]).chain(955..=1030).chain([2000, 32704, 32767]).collect();
+    let ne = e64.len() as u64;
+    ctx.bound("encode.f64.exponents", ne);
+    let tops: u64 = if quick { 8 } else { 64 };
+    ctx.sweep("encode.f64", 63 * tops * 3 * ne, |i, rec| {
+        let [len, top, mid, ie] = unflatten(i, [63, tops, 3, ne]);
+        let len = len as u32 + 1; // bit length 1..=63
+        let e = e64[ie];
+        let extreme = (e as i32).abs() > 1999;
+        let tb = if quick { 3 } else { 6 };
+        for lo in 0..(if extreme { 4u64 } else { 64 }) {
+            // assemble a `len`-bit magnitude; fields that do not fit are truncated from the middle
+            let mut mag: u64 = 1u64 << (len - 1);
+            if len > 1 {
+                let avail = len - 1;
+                let t_w = tb.min(avail);
+                mag |= ((top as u64) & ((1 << t_w) - 1)) << (avail - t_w);
+                let l_w = 6.min(avail - t_w);
+                mag |= lo & ((1 << l_w) - 1);
+                let m_w = avail - t_w - l_w;
+                if m_w > 0 {
+                    let mm = (1u64 << m_w) - 1;
+                    mag |= ([0u64, mm, 0x5555_5555_5555_5555 & mm][mid]) << l_w;
+                }
+            }
+            encode_one::<f64>(rec, mag as i64, e);
+            encode_one::<f64>(rec, -(mag as i64), e);
+        }
+        if len == 1 && top == 0 && mid == 0 {
+            encode_one::<f64>(rec, i64::MIN, e);
+            encode_one::<f64>(rec, 0, e);
+            encode_one::<f32>(rec, 0, e);
+        }
+        rec.nontrivial();
+        rec.sample(|| format!("f64::encode(+-m, {}) for {}-bit magnitudes, top field {}, middle pattern {}", e, len, top, mid));
+    });
+}
+
+// ---------------------------------------------------------------------------------------------
+// (d) rationals -> f32 / f64
+
+fn rat_to_float_case<F: DF>(rec: &mut Rec, n: &BigInt, d: &BigInt) {
+    use num_integer::Integer;
+    let fmt = F::FMT;
+    let x = Rat::new(n.clone(), d.clone());
+    let want = round_rat(&x, fmt, Mode::HalfEven);
+    let wf = F::from_bits64(bits_of(&want, fmt));
+    // width of the quotient the shifted long division produces (mant or mant+1 bits), from the
+    // same inequalities as the source, on the reduced fraction
+    let qbits = if x.is_zero() {
+        0
+    } else {
+        let shift = x.n.bits() as i64 - x.d.bits() as i64 - fmt.mant as i64;
+        let q = if shift >= 0 { x.n.abs().div_floor(&(&x.d << shift as u64)) } else { (x.n.abs() << (-shift) as u64).div_floor(&x.d) };
+        q.bits() as i64 - fmt.mant as i64
+    };
+    rec.hit(if qbits == 0 { "quotient:mant-bits" } else { "quotient:mant+1-bits" });
+    rec.hit(range_class(&want, fmt));
+    if want.tie {
+        rec.hit("tie");
+    }
+    let cls = class_of(&want, fmt);
+    let case = || format!("{}/{} -> {}", n, d, F::NAME);
+    let case: &dyn Fn() -> String = &case;
+    let (to, fast, tf) = if fmt.mant == 24 { ("to_f32", "to_f32_fast", "f32::try_from") } else { ("to_f64", "to_f64_fast", "f64::try_from") };
+    let r = match guard(|| RBig::from_parts(ref_to_i(n), ref_to_u(d.magnitude()))) {
+        Ok(r) => r,
+        Err(p) => {
+            rec.fail(format!("{}|RBig::from_parts|panic|", P), case(), p, "a rational");
+            return;
+        }
+    };
+    let (n3, d3): (BigInt, BigInt) = (n * BigInt::from(3), d * BigInt::from(3));
+    let rx = Relaxed::from_parts(ref_to_i(&n3), ref_to_u(d3.magnitude()));
+    let rcls = if want.err == Equal { "representable" } else { "not-representable" };
+    let fast_chk = |rec: &mut Rec, ty: &str, got: Result<F, String>| {
+        rec.step();
+        match got {
+            Ok(g) if within_one_ulp(g, wf) => rec.hit(if same_float(g, wf) { "fast:correctly-rounded" } else { "fast:off-by-one-ulp" }),
+            Ok(g) => {
+                if !saturated(rec, ty, fast, "error>1ulp", &cls) {
+                    rec.fail(format!("{}|{}::{}|error>1ulp|{}", P, ty, fast, cls), case(), g.show(), format!("{} or a neighbour", wf.show()))
+                }
+            }
+            Err(p) => {
+                if !saturated(rec, ty, fast, "panic", &cls) {
+                    rec.fail(format!("{}|{}::{}|panic|{}", P, ty, fast, cls), case(), p, wf.show())
+                }
+            }
+        }
+    };
+    let tf_chk = |rec: &mut Rec, ty: &str, got: Result<Result<F, ConversionError>, String>| {
+        rec.step();
+        match got {
+            Ok(Ok(g)) if want.err == Equal && same_float(g, wf) => rec.hit("try_from:ok"),
+            Ok(Ok(g)) => {
+                if !saturated(rec, ty, tf, "succeeded-with-changed-value", rcls) {
+                    rec.fail(format!("{}|{}({})|succeeded-with-changed-value|{}", P, tf, ty, rcls), case(), g.show(), if want.err == Equal { wf.show() } else { "Err(LossOfPrecision | OutOfBounds)".into() })
+                }
+            }
+            Ok(Err(_)) => rec.hit(if want.err == Equal { "try_from:conservative-refusal" } else { "try_from:refused" }),
+            Err(p) => {
+                if !saturated(rec, ty, tf, "panic", rcls) {
+                    rec.fail(format!("{}|{}({})|panic|{}", P, tf, ty, rcls), case(), p, "Ok or Err")
+                }
+            }
+        }
+    };
+    chk_sign::<F>(rec, &format!("RBig::{}", to), &cls, case, guard(|| F::r_to(&r)), &want);
+    fast_chk(rec, "RBig", guard(|| F::r_fast(&r)));
+    chk_sign::<F>(rec, &format!("Relaxed::{}", to), &cls, case, guard(|| F::x_to(&rx)), &want);
+    fast_chk(rec, "Relaxed", guard(|| F::x_fast(&rx)));
+    tf_chk(rec, "RBig", guard(|| F::back_r(r)));
+    tf_chk(rec, "Relaxed", guard(|| F::back_x(rx)));
+    if !x.is_zero() {
+        rec.nontrivial();
+    }
+}
+
+fn rat_denominators(quick: bool) -> Vec<BigInt> {
+    let one = BigInt::one();
+    let mut v = vec![BigInt::from(3), BigInt::from(10), BigInt::from(1025), (&one << 61u32) - 1, (&one << 64u32) + 13, (&one << 89u32) - 1];
+    if !quick {
+        v.extend([BigInt::from(7), BigInt::from(1023), (&one << 31u32) - 1, BigInt::from(3) << 20u32]);
+    }
+    v
+}
+
+fn sweep_rat_to_float_fmt<F: DF>(ctx: &mut Ctx, js: &[i64]) {
+    let fmt = F::FMT;
+    let quick = ctx.quick();
+    let ds = rat_denominators(quick);
+    let ms = if quick { mant_set(fmt.mant + 2, 2, 4, 0) } else { mant_set(fmt.mant + 2, 3, 5, 0) };
+    let ms: Vec<u64> = ms.into_iter().filter(|m| *m != 0).collect();
+    let (nm, nj, nd) = (ms.len() as u64, js.len() as u64, ds.len() as u64);
+    let name = format!("rat.to_{}.near-ties", F::NAME);
+    ctx.sweep(&name, nm * nj * nd, |i, rec| {
+        let [im, ij, id] = unflatten(i, [nm, nj, nd]);
+        let (m, j, d) = (ms[im], js[ij], &ds[id]);
+        for delta in [-1i32, 0, 1] {
+            for sg in [1i32, -1] {
+                let num = (BigInt::from(m) * d + delta) * sg;
+                if j >= 0 {
+                    rat_to_float_case::<F>(rec, &(num << j as u64), d);
+                } else {
+                    rat_to_float_case::<F>(rec, &num, &(d << (-j) as u64));
+                }
+            }
+        }
+        rec.sample(|| format!("RBig/Relaxed +-({:#x} + {{-1,0,1}}/{}) * 2^{}: to_{n}, to_{n}_fast, {n}::try_from", m, d, j, n = F::NAME));
+    });
+    ctx.require_classes(&name, &["exact", "inexact:result-above", "inexact:result-below", "tie", "quotient:mant-bits", "quotient:mant+1-bits", "normal", "subnormal", "half-min-subnormal", "underflow", "top-binade", "overflow", "try_from:ok", "try_from:refused", "fast:correctly-rounded"]);
+    // small significands across the bottom of the subnormal range: (M + delta/d) * 2^(qmin - s)
+    let mmax: u64 = if quick { 1 << 9 } else { 1 << 12 };
+    let name = format!("rat.to_{}.subnormal", F::NAME);
+    ctx.sweep(&name, (mmax - 1) * 13 * nd, |i, rec| {
+        let [im, s, id] = unflatten(i, [mmax - 1, 13, nd]);
+        let (m, d) = (im as u64 + 1, &ds[id]);
+        for delta in [-1i32, 0, 1] {
+            for sg in [1i32, -1] {
+                let num = (BigInt::from(m) * d + delta) * sg;
+                rat_to_float_case::<F>(rec, &num, &(d << (s as i64 - fmt.qmin) as u64));
+            }
+        }
+        rec.sample(|| format!("RBig/Relaxed +-({} + {{-1,0,1}}/{}) * 2^{}", m, d, fmt.qmin - s as i64));
+    });
+    ctx.require_classes(&name, &["exact", "inexact:result-above", "inexact:result-below", "tie", "subnormal", "half-min-subnormal", "underflow"]);
+}
+
+fn sweep_rat_to_float(ctx: &mut Ctx) {
+    let j32: Vec<i64> = (-181..=-148).chain([-100, -27, -26, -25, -24, -2, -1, 0, 1, 2, 39, 64]).chain(99..=105).collect();
+    sweep_rat_to_float_fmt::<f32>(ctx, &j32);
+    let j64: Vec<i64> = (-1135..=-1125).chain([-1110, -1100, -1090]).chain(-1082..=-1073).chain([-500, -56, -55, -54, -53, -52, -2, -1, 0, 1, 2, 10, 64, 500]).chain(966..=972).collect();
+    sweep_rat_to_float_fmt::<f64>(ctx, &j64);
+}
+
+// ---------------------------------------------------------------------------------------------
+// (e) FBig (any base) -> f32 under the type's mode, -> f64 under HalfEven
+
+/// two-valued range class for the FBig signatures: at or above the smallest normal / below it
+fn range_group(r: &RefF, fmt: Fmt) -> &'static str {
+    match range_class(r, fmt) {
+        "zero" | "normal" | "top-binade" | "overflow" => "normal-range",
+        _ => "below-normal-range",
+    }
+}
+
+fn convert_branch<const B: Word>(e: i64) -> &'static str {
+    if B == 2 {
+        "base2"
+    } else if B.is_power_of_two() {
+        "power-of-two-base"
+    } else {
+        let thr = (WBITS as f32 * 0.60206) as i64; // float/src/convert.rs THRESHOLD_SMALL_EXP
+        if e.abs() > thr {
+            "large-exponent"
+        } else if e >= 0 {
+            "small-exponent>=0"
+        } else {
+            "small-exponent<0"
+        }
+    }
+}
+
+fn fbig_to_float<R: ModeTag, const B: Word>(ctx: &mut Ctx, tag: &str, vals: &[(BigInt, i64)]) {
+    let n = vals.len() as u64;
+    let md = R::MODE;
+    let name = format!("fbig.B{}.{}.{}", B, md.name(), tag);
+    let with_f64 = matches!(md, Mode::HalfEven | Mode::Zero);
+    ctx.sweep(&name, n, |i, rec| {
+        let (s0, e) = &vals[i as usize];
+        let e = *e;
+        let br = convert_branch::<B>(e);
+        rec.hit(br);
+        for sg in [1i32, -1] {
+            let s = s0 * sg;
+            if s.is_zero() && sg < 0 {
+                continue;
+            }
+            let x = Rat::scaled(&s, B as u32, e);
+            let f: FBig<R, B> = fbig_of::<R, B>(&s, e, digits_b(&s, B as u32).max(1));
+            let case = || format!("FBig<{}, {}> {}*{}^{}", md.name(), B, s, B, e);
+            let case: &dyn Fn() -> String = &case;
+            let w32 = round_rat(&x, F32, md);
+            rec.hit(range_class(&w32, F32));
+            let cls = format!("{},{}", range_group(&w32, F32), br);
+            chk_rounding::<f32>(rec, &format!("FBig<{}>::to_f32", B), &cls, case, guard(|| f.to_f32()), &w32);
+            if with_f64 {
+                let w64 = round_rat(&x, F64, Mode::HalfEven);
+                let cls = format!("{},{}", range_group(&w64, F64), br);
+                chk_rounding::<f64>(rec, &format!("FBig<{}>::to_f64", B), &cls, case, guard(|| f.to_f64()), &w64);
+                if md == Mode::HalfEven {
+                    chk_rounding::<f64>(rec, &format!("Repr<{}>::to_f64", B), &cls, case, guard(|| f.repr().to_f64()), &w64);
+                    let cls = format!("{},{}", range_group(&w32, F32), br);
+                    chk_rounding::<f32>(rec, &format!("Repr<{}>::to_f32", B), &cls, case, guard(|| f.repr().to_f32()), &w32);
+                }
+            }
+            if !s.is_zero() {
+                rec.nontrivial();
+            }
+        }
+        rec.sample(|| format!("FBig<{}, {}> +-{}*{}^{}: to_f32{}", md.name(), B, s0, B, e, if with_f64 { ", to_f64" } else { "" }));
+    });
+    ctx.require_classes(&name, &["exact"]);
+}
+
+fn grid(sigs: &[u64], exps: &[i64]) -> Vec<(BigInt, i64)> {
+    let mut v = Vec::with_capacity(sigs.len() * exps.len());
+    for &s in sigs {
+        for &e in exps {
+            v.push((BigInt::from(s), e));
+        }
+    }
+    v
+}
+
+fn sweep_fbig_to_float(ctx: &mut Ctx) {
+    let quick = ctx.quick();
+    // base 2: near-tie significands across normal / subnormal / overflow exponents of f32 and f64
+    let s32: Vec<u64> = mant_set(26, 2, 4, if quick { 6 } else { 9 });
+    let e32: Vec<i64> = (-181..=-148).chain([-100, -27, -26, -25, -24, -2, -1, 0, 1, 2, 39]).chain(99..=105).collect();
+    let g = grid(&s32, &e32);
+    for_all_modes!(fbig_to_float, 2, (ctx, "f32-range", &g));
+    let s64: Vec<u64> = mant_set(55, 2, 4, if quick { 5 } else { 8 });
+    let e64: Vec<i64> = (-1135..=-1125).chain([-1110, -1100, -1090]).chain(-1082..=-1073).chain([-500, -56, -55, -54, -53, -2, -1, 0, 1, 64, 500]).chain(966..=972).collect();
+    let g = grid(&s64, &e64);
+    fbig_to_float::<mode::HalfEven, 2>(ctx, "f64-range", &g);
+    fbig_to_float::<mode::Zero, 2>(ctx, "f64-range", &g);
+    // base 10: every significand of <= 3 digits, exponents around the f32 range; coarse
+    // significands across the f64 range
+    let s10: Vec<u64> = (0..if quick { 1000u64 } else { 10000 }).filter(|s| s % 10 != 0 || *s == 0).collect();
+    let e10: Vec<i64> = (-50..=40).collect();
+    let g = grid(&s10, &e10);
+    if quick {
+        // all six modes on the 2-digit significands, the two modes whose conversion also yields f64 on all
+        let s10b: Vec<u64> = s10.iter().copied().filter(|s| *s < 100).collect();
+        let gb = grid(&s10b, &e10);
+        for_all_modes!(fbig_to_float, 10, (ctx, "2-digits", &gb));
+        fbig_to_float::<mode::HalfEven, 10>(ctx, "3-digits", &g);
+        fbig_to_float::<mode::Zero, 10>(ctx, "3-digits", &g);
+    } else {
+        for_all_modes!(fbig_to_float, 10, (ctx, "4-digits", &g));
+    }
+    let s10c: Vec<u64> = (1..100u64).filter(|s| s % 10 != 0).collect();
+    let e10c: Vec<i64> = if quick { (-330..=310).step_by(3).collect() } else { (-330..=310).collect() };
+    let g = grid(&s10c, &e10c);
+    fbig_to_float::<mode::HalfEven, 10>(ctx, "2-digits-f64-range", &g);
+    fbig_to_float::<mode::Zero, 10>(ctx, "2-digits-f64-range", &g);
+    // base 16 (exact base change: the significand reaches the encoder unrounded)
+    let s16: Vec<u64> = mant_set(26, 2, 3, if quick { 6 } else { 9 });
+    let e16: Vec<i64> = (-46..=-30).chain(-7..=2).chain(24..=33).collect();
+    let g = grid(&s16, &e16);
+    for_all_modes!(fbig_to_float, 16, (ctx, "f32-range", &g));
+    if !quick {
+        let s3: Vec<u64> = (0..243u64).filter(|s| s % 3 != 0 || *s == 0).collect();
+        let e3: Vec<i64> = (-100..=85).collect();
+        let g = grid(&s3, &e3);
+        for_all_modes!(fbig_to_float, 3, (ctx, "5-digits", &g));
+    }
+}
+
+// ---------------------------------------------------------------------------------------------
+// (f) to_int family, TryFrom<FBig>/<RBig> for integers and rationals, RBig::to_float
+
+fn int_result(rec: &mut Rec, site: &str, cls: &str, case: &dyn Fn() -> String, got: Result<Approximation<IBig, Rounding>, String>, want: &BigInt, err: Ordering, noop_only: bool) {
+    rec.step();
+    let (v, flag) = match got {
+        Ok(Approximation::Exact(v)) => (v, None),
+        Ok(Approximation::Inexact(v, r)) => (v, Some(r)),
+        Err(p) => {
+            rec.fail(format!("{}|{}|panic|{}", P, site, cls), case(), p, hex(want));
+            return;
+        }
+    };
+    let g = i_to_ref(&v);
+    if &g != want {
+        rec.fail(format!("{}|{}|wrong-value|{}", P, site, cls), case(), format!("{} flag {:?}", g, flag), format!("{} (error sign {:?})", want, err));
+        return;
+    }
+    let bad = match (flag, err) {
+        (None, Equal) => {
+            rec.hit("exact");
+            None
+        }
+        (None, _) => Some("exact-but-inexact"),
+        (Some(_), Equal) => Some("inexact-but-exact"),
+        (Some(Rounding::AddOne), Greater) if !noop_only => {
+            rec.hit("inexact:addone");
+            None
+        }
+        (Some(Rounding::SubOne), Less) if !noop_only => {
+            rec.hit("inexact:subone");
+            None
+        }
+        (Some(Rounding::NoOp), e) => {
+            let towards_zero = (e == Less) != want.is_negative() || want.is_zero();
+            rec.hit(if towards_zero { "inexact:noop" } else { "unspecified:noop-on-result-away-from-zero" });
+            None
+        }
+        _ => Some("direction"),
+    };
+    if let Some(k) = bad {
+        rec.fail(format!("{}|{}|wrong-flag:{}|{}", P, site, k, cls), case(), format!("{} flag {:?}", g, flag), format!("{} (error sign {:?})", want, err));
+    }
+}
+
+fn to_int_sweep<R: ModeTag, const B: Word>(ctx: &mut Ctx, uni: &[(BigInt, i64)]) {
+    let md = R::MODE;
+    let n = uni.len() as u64;
+    let name = format!("to_int.B{}.{}", B, md.name());
+    ctx.sweep(&name, n * 3, |i, rec| {
+        let [iv, ip] = unflatten(i, [n, 3]);
+        let (s, e) = &uni[iv];
+        let digits = digits_b(s, B as u32).max(1);
+        let prec = [digits, digits + 3, 0][ip];
+        let x = Rat::scaled(s, B as u32, *e);
+        let f: FBig<R, B> = fbig_of::<R, B>(s, *e, prec);
+        let small = rat_abs_lt_pow2(&x, 0);
+        let cls = format!("{},{}", if x.is_int() { "integer" } else if small { "abs<1" } else { "abs>1" }, match ip { 0 => "precision=digits", 1 => "precision>digits", _ => "precision-unlimited" });
+        let case = || format!("FBig<{}, {}> {}*{}^{} precision {}", md.name(), B, s, B, e, prec);
+        let case: &dyn Fn() -> String = &case;
+        let (want, err) = round_int(&x, md);
+        int_result(rec, &format!("FBig<{}>::to_int", B), &cls, case, guard(|| f.to_int()), &want, err, false);
+        if md == Mode::Zero && ip == 0 {
+            let (wz, ez) = round_int(&x, Mode::Zero);
+            let cls = if x.is_int() { "integer" } else if small { "abs<1" } else { "abs>1" };
+            int_result(rec, &format!("Repr<{}>::to_int", B), cls, case, guard(|| f.repr().to_int()), &wz, ez, true);
+            // lossless-or-refused conversions of a float value
+            let is_int = x.is_int();
+            lossless(rec, Site("IBig::try_from(FBig)", ""), cls, case, guard(|| IBig::try_from(f.clone())), is_int, |v| i_to_ref(v) == x.n, |v| hex(&i_to_ref(v)));
+            lossless(rec, Site("UBig::try_from(FBig)", ""), cls, case, guard(|| UBig::try_from(f.clone())), is_int && !x.is_neg(), |v| BigInt::from(u_to_ref(v)) == x.n, |v| hexu(&u_to_ref(v)));
+            let iv = IVal::of(if is_int { x.n.clone() } else { BigInt::zero() });
+            macro_rules! prim {
+                ($($t:ty)*) => {$(
+                    lossless(rec, Site(concat!(stringify!($t), "::try_from(FBig)"), ""), cls, case, guard(|| <$t>::try_from(f.clone())), is_int && fits::<$t>(&iv), |v| BigInt::from(*v) == x.n, |v| format!("{}", v));
+                )*};
+            }
+            prim!(u8 i8 u16 i32 u64 i64 u128 i128 usize isize);
+            let r = lossless(rec, Site("RBig::try_from(FBig)", ""), cls, case, guard(|| RBig::try_from(f.clone())), true, |r| { let (n, d) = rb_rat(r); canonical(&n, &d) && n == x.n && d == x.d }, |r| format!("{:?}", rb_rat(r)));
+            lossless(rec, Site("Relaxed::try_from(FBig)", ""), cls, case, guard(|| Relaxed::try_from(f.clone())), true, |r| { let (n, d) = rx_rat(r); d.is_positive() && Rat::new(n, d) == x }, |r| format!("{:?}", rx_rat(r)));
+            lossless(rec, Site("RBig::try_from(Repr)", ""), cls, case, guard(|| RBig::try_from(f.repr().clone())), true, |r| { let (n, d) = rb_rat(r); canonical(&n, &d) && n == x.n && d == x.d }, |r| format!("{:?}", rb_rat(r)));
+            // and back: From<RBig> for FBig must hold the same value (the value is a B-adic fraction)
+            if let Some(r) = r {
+                rec.step();
+                match guard(|| FBig::<R, B>::from(r)) {
+                    Ok(g) if fb_rat(&g).as_ref() == Some(&x) => rec.hit("from-rbig:same-value"),
+                    Ok(g) => rec.fail(format!("{}|FBig<{}>::from(RBig)|lossy-from|terminating-fraction", P, B), case(), fval(g.repr()).show(), x.show()),
+                    Err(p) => rec.fail(format!("{}|FBig<{}>::from(RBig)|panic|terminating-fraction", P, B), case(), p, x.show()),
+                }
+            }
+        }
+        rec.hit(if x.is_int() { "integer" } else if small { "abs<1" } else { "abs>1" });
+        if !s.is_zero() {
+            rec.nontrivial();
+        }
+        rec.sample(|| case());
+    });
+    ctx.require_classes(&name, &["exact", "integer", "abs<1", "abs>1"]);
+}
+
+fn q_universe(nmax: i64, dmax: i64, seed: u64) -> Vec<(BigInt, BigInt)> {
+    use num_integer::Integer;
+    let mut v = vec![];
+    for d in 1..=dmax {
+        for n in -nmax..=nmax {
+            if n.gcd(&d) == 1 {
+                v.push((BigInt::from(n), BigInt::from(d)));
+            }
+        }
+    }
+    // multi-word shapes: integers, unit fractions, near-integers
+    for sh in shapes(&[1, 2, 3, 5], &["ones", "top1p1", "lcgA", "lcgSeed"], seed) {
+        let a = BigInt::from(sh.v.clone());
+        v.push((a.clone(), BigInt::one()));
+        v.push((-a.clone(), BigInt::from(3)));
+        v.push((BigInt::one(), a.clone() + 1));
+        v.push((&a * 7 + 1, BigInt::from(7)));
+        v.push((-(&a * &a) - 1, a.clone() + 2));
+    }
+    v.into_iter().map(|(n, d)| { let r = Rat::new(n, d); (r.n, r.d) }).collect::<BTreeSet<_>>().into_iter().collect()
+}
+
+fn sweep_rat_to_int(ctx: &mut Ctx, q: &[(BigInt, BigInt)]) {
+    let n = q.len() as u64;
+    ctx.sweep("rat.to_int+try_from", n, |i, rec| {
+        let (num, den) = &q[i as usize];
+        let x = Rat::new(num.clone(), den.clone());
+        let is_int = x.is_int();
+        let cls = if is_int { "integer" } else if rat_abs_lt_pow2(&x, 0) { "abs<1" } else { "abs>1" };
+        rec.hit(cls);
+        let case = || format!("{}/{}", num, den);
+        let case: &dyn Fn() -> String = &case;
+        let r = RBig::from_parts(ref_to_i(num), ref_to_u(den.magnitude()));
+        let (n3, d3): (BigInt, BigInt) = (num * BigInt::from(3), den * BigInt::from(3));
+        let rx = Relaxed::from_parts(ref_to_i(&n3), ref_to_u(d3.magnitude()));
+        let tr = x.trunc();
+        let fr = x.sub(&Rat::int(tr.clone()));
+        // to_int: truncation and the fractional part
+        rec.steps(2);
+        match guard(|| r.to_int()) {
+            Ok(Approximation::Exact(v)) if is_int && i_to_ref(&v) == tr => rec.hit("exact"),
+            Ok(Approximation::Inexact(v, f)) if !is_int && i_to_ref(&v) == tr && { let (n, d) = rb_rat(&f); canonical(&n, &d) && n == fr.n && d == fr.d } => rec.hit("inexact:fraction-returned"),
+            Ok(o) => rec.fail(format!("{}|RBig::to_int|wrong-value|{}", P, cls), case(), format!("{:?}", o.map(|v| i_to_ref(&v))), format!("{} and fraction {}", tr, fr.show())),
+            Err(p) => rec.fail(format!("{}|RBig::to_int|panic|{}", P, cls), case(), p, format!("{}", tr)),
+        }
+        match guard(|| rx.to_int()) {
+            Ok(Approximation::Exact(v)) if is_int && i_to_ref(&v) == tr => rec.hit("exact"),
+            Ok(Approximation::Inexact(v, f)) if !is_int && i_to_ref(&v) == tr && { let (n, d) = rx_rat(&f); d.is_positive() && Rat::new(n, d) == fr } => rec.hit("inexact:fraction-returned"),
+            Ok(o) => rec.fail(format!("{}|Relaxed::to_int|wrong-value|{}", P, cls), case(), format!("{:?}", o.map(|v| i_to_ref(&v))), format!("{} and fraction {}", tr, fr.show())),
+            Err(p) => rec.fail(format!("{}|Relaxed::to_int|panic|{}", P, cls), case(), p, format!("{}", tr)),
+        }
+        lossless(rec, Site("IBig::try_from(RBig)", ""), cls, case, guard(|| IBig::try_from(r.clone())), is_int, |v| i_to_ref(v) == x.n, |v| hex(&i_to_ref(v)));
+        lossless(rec, Site("IBig::try_from(Relaxed)", ""), cls, case, guard(|| IBig::try_from(rx.clone())), is_int, |v| i_to_ref(v) == x.n, |v| hex(&i_to_ref(v)));
+        lossless(rec, Site("UBig::try_from(RBig)", ""), cls, case, guard(|| UBig::try_from(r.clone())), is_int && !x.is_neg(), |v| BigInt::from(u_to_ref(v)) == x.n, |v| hexu(&u_to_ref(v)));
+        lossless(rec, Site("UBig::try_from(Relaxed)", ""), cls, case, guard(|| UBig::try_from(rx.clone())), is_int && !x.is_neg(), |v| BigInt::from(u_to_ref(v)) == x.n, |v| hexu(&u_to_ref(v)));
+        let iv = IVal::of(if is_int { x.n.clone() } else { BigInt::zero() });
+        macro_rules! prim {
+            ($($t:ty)*) => {$(
+                lossless(rec, Site(concat!(stringify!($t), "::try_from(RBig)"), ""), cls, case, guard(|| <$t>::try_from(r.clone())), is_int && fits::<$t>(&iv), |v| BigInt::from(*v) == x.n, |v| format!("{}", v));
+                lossless(rec, Site(concat!(stringify!($t), "::try_from(Relaxed)"), ""), cls, case, guard(|| <$t>::try_from(rx.clone())), is_int && fits::<$t>(&iv), |v| BigInt::from(*v) == x.n, |v| format!("{}", v));
+            )*};
+        }
+        prim!(u8 i8 u64 i64 i128 usize);
+        // From<RBig> for FBig: a From must be lossless
+        let term2 = { let mut d = x.d.clone(); while (&d % 2u8).is_zero() { d /= 2u8; } d.is_one() };
+        let term10 = { let mut d = x.d.clone(); while (&d % 2u8).is_zero() { d /= 2u8; } while (&d % 5u8).is_zero() { d /= 5u8; } d.is_one() };
+        rec.steps(2);
+        match guard(|| F2::from(r.clone())) {
+            Ok(g) if fb_rat(&g).as_ref() == Some(&x) => rec.hit("from-rbig:same-value"),
+            Ok(g) => rec.fail(format!("{}|FBig<2>::from(RBig)|lossy-from|{}", P, if term2 { "terminating-fraction" } else { "non-terminating-fraction" }), case(), fval(g.repr()).show(), format!("{} exactly (a From conversion must not lose information)", x.show())),
+            Err(p) => rec.fail(format!("{}|FBig<2>::from(RBig)|panic|{}", P, if term2 { "terminating-fraction" } else { "non-terminating-fraction" }), case(), p, x.show()),
+        }
+        match guard(|| F10::from(rx.clone())) {
+            Ok(g) if fb_rat(&g).as_ref() == Some(&x) => rec.hit("from-rbig:same-value"),
+            Ok(g) => rec.fail(format!("{}|FBig<10>::from(Relaxed)|lossy-from|{}", P, if term10 { "terminating-fraction" } else { "non-terminating-fraction" }), case(), fval(g.repr()).show(), format!("{} exactly (a From conversion must not lose information)", x.show())),
+            Err(p) => rec.fail(format!("{}|FBig<10>::from(Relaxed)|panic|{}", P, if term10 { "terminating-fraction" } else { "non-terminating-fraction" }), case(), p, x.show()),
+        }
+        if !x.is_zero() {
+            rec.nontrivial();
+        }
+        rec.sample(|| case());
+    });
+    ctx.require_classes("rat.to_int+try_from", &["exact", "inexact:fraction-returned", "integer", "abs<1", "abs>1"]);
+}
+
+fn to_float_sweep<R: ModeTag, const B: Word>(ctx: &mut Ctx, q: &[(BigInt, BigInt)], precs: &[usize]) {
+    let md = R::MODE;
+    let (n, np) = (q.len() as u64, precs.len() as u64);
+    let name = format!("rat.to_float.B{}.{}", B, md.name());
+    ctx.sweep(&name, n * np, |i, rec| {
+        let [iq, ip] = unflatten(i, [n, np]);
+        let (num, den) = &q[iq];
+        let p = precs[ip];
+        let x = Rat::new(num.clone(), den.clone());
+        let r = RBig::from_parts(ref_to_i(num), ref_to_u(den.magnitude()));
+        let case = || format!("RBig {}/{} .to_float::<{}, {}>({})", num, den, md.name(), B, p);
+        let multi = num.bits() > 64 || den.bits() > 64;
+        let cls = format!("B{},{},{}", B, if md.is_half() { "half-modes" } else { "directed-modes" }, if multi { "multi-word" } else { "single-word" });
+        for relaxed in [false, true] {
+            rec.step();
+            let site = if relaxed { "Relaxed::to_float" } else { "RBig::to_float" };
+            let got = if relaxed { let rx = r.clone().relax(); guard(|| rx.to_float::<R, B>(p)) } else { guard(|| r.to_float::<R, B>(p)) };
+            match got {
+                Ok(a) => {
+                    let flag = flag_of(&a);
+                    let v = a.value();
+                    if v.repr().is_infinite() {
+                        rec.fail(format!("{}|{}|infinite-result|{}", P, site, cls), case(), "infinite", x.show());
+                        continue;
+                    }
+                    let fv = fval(v.repr());
+                    match judge(&x, &fv, flag, p, md) {
+                        Ok(c) => rec.hit(c),
+                        Err((kind, why)) => rec.fail(format!("{}|{}|{}|{}", P, site, kind, cls), case(), format!("{} flag {:?}: {}", fv.show(), flag, why), format!("{} rounded to {} digits in mode {}", x.show(), p, md.name())),
+                    }
+                }
+                Err(pm) => rec.fail(format!("{}|{}|panic|{}", P, site, cls), case(), pm, format!("{} rounded to {} digits", x.show(), p)),
+            }
+        }
+        if !x.is_zero() {
+            rec.nontrivial();
+        }
+        rec.sample(|| case());
+    });
+    ctx.require_classes(&name, &["exact"]);
+}
+
+fn sweep_to_int_family(ctx: &mut Ctx) {
+    let quick = ctx.quick();
+    let u2 = f_universe(2, if quick { 4 } else { 6 }, if quick { 6 } else { 8 });
+    for_all_modes!(to_int_sweep, 2, (ctx, &u2));
+    let u10 = f_universe(10, 2, 4);
+    for_all_modes!(to_int_sweep, 10, (ctx, &u10));
+    if !quick {
+        let u3 = f_universe(3, 3, 4);
+        for_all_modes!(to_int_sweep, 3, (ctx, &u3));
+        let u16 = f_universe(16, 2, 3);
+        for_all_modes!(to_int_sweep, 16, (ctx, &u16));
+    }
+    let q = if quick { q_universe(12, 12, ctx.seed) } else { q_universe(40, 40, ctx.seed) };
+    ctx.bound("rat.universe", q.len() as u64);
+    sweep_rat_to_int(ctx, &q);
+    let precs: Vec<usize> = if quick { vec![1, 2, 3, 5] } else { vec![1, 2, 3, 4, 5, 8, 20] };
+    for_all_modes!(to_float_sweep, 10, (ctx, &q, &precs));
+    for_all_modes!(to_float_sweep, 2, (ctx, &q, &precs));
+    if !quick {
+        for_all_modes!(to_float_sweep, 3, (ctx, &q, &precs));
+        for_all_modes!(to_float_sweep, 16, (ctx, &q, &precs));
+    }
+}
+
+// ---------------------------------------------------------------------------------------------
+
+fn self_check(ctx: &mut Ctx) {
+    let mut bad = vec![];
+    // (1) dyadic reference vs hardware integer -> float casts (RNE)
+    let mut atoms: Vec<u128> = vec![0, 1, 2, 3, (1 << 24) - 1, 1 << 24, (1 << 24) + 1, (1 << 25) + 1, (1 << 25) + 2, (1 << 25) + 3, (1u128 << 53) + 1, (1u128 << 54) + 2, (1u128 << 54) + 3, u64::MAX as u128, u128::MAX, u128::MAX - (1 << 103), u128::MAX - (1 << 104) + 1, (1u128 << 127) + (1u128 << 103), (1u128 << 127) + (1u128 << 103) + 1];
+    let mut st = 0x9E3779B97F4A7C15u64;
+    for _ in 0..500 {
+        st = st.wrapping_mul(6364136223846793005).wrapping_add(1442695040888963407);
+        let a = (st as u128) << 64 | (st.rotate_left(17) as u128);
+        atoms.push(a >> (st % 128));
+    }
+    for &n in &atoms {
+        if bits_of(&round_dyadic(n, 0, false, F32, Mode::HalfEven), F32) != (n as f32).to_bits() as u64 {
+            bad.push(format!("u128 {} as f32", n));
+        }
+        if bits_of(&round_dyadic(n, 0, false, F64, Mode::HalfEven), F64) != (n as f64).to_bits() {
+            bad.push(format!("u128 {} as f64", n));
+        }
+        // f64 -> f32 narrowing (covers the subnormal range of f32)
+        let m = (n >> 75) as u64; // 53 bits
+        for e in [-1100i64, -203, -202, -180, -176, -175, -174, -160, -150, -126, -60, 0, 74, 75, 76, 80] {
+            if m == 0 || !(-1074..=970).contains(&e) {
+                continue;
+            }
+            let d = (m as f64) * 2f64.powi(e as i32); // exact: m < 2^53 and the product stays normal or is exact
+            if e >= -1000 && bits_of(&round_dyadic(m as u128, e, false, F32, Mode::HalfEven), F32) != (d as f32).to_bits() as u64 {
+                bad.push(format!("f64 {}*2^{} as f32", m, e));
+            }
+        }
+        // (2) rational front end == dyadic front end, all modes
+        for md in MODES {
+            for e in [-1130i64, -1080, -160, -149, -3, 0, 900, 1000] {
+                for neg in [false, true] {
+                    let x = rat_of_parts(neg, (n >> 64) as u64, e);
+                    for fmt in [F32, F64] {
+                        if round_rat(&x, fmt, md) != round_dyadic(n >> 64, e, neg, fmt, md) && (n >> 64) != 0 {
+                            bad.push(format!("round_rat vs round_dyadic {}*2^{} {:?}", n >> 64, e, md));
+                        }
+                    }
+                }
+            }
+        }
+    }
+    // (3) decimal values vs std's correctly rounded parser
+    for s in (1..2000u32).step_by(7) {
+        for e in [-330i32, -324, -323, -310, -60, -46, -45, -44, -38, -20, -5, -1, 0, 1, 10, 22, 23, 38, 39, 300, 308, 309] {
+            let x = Rat::scaled(&BigInt::from(s), 10, e as i64);
+            let txt = format!("{}e{}", s, e);
+            if bits_of(&round_rat(&x, F64, Mode::HalfEven), F64) != txt.parse::<f64>().unwrap().to_bits() {
+                bad.push(format!("{} as f64", txt));
+            }
+            if bits_of(&round_rat(&x, F32, Mode::HalfEven), F32) != txt.parse::<f32>().unwrap().to_bits() as u64 {
+                bad.push(format!("{} as f32", txt));
+            }
+        }
+    }
+    // (4) hand-computed directed roundings and error signs
+    let t = |n: u128, e: i64, neg: bool, md: Mode, bits: u32, err: Ordering| {
+        let r = round_dyadic(n, e, neg, F32, md);
+        bits_of(&r, F32) == bits as u64 && r.err == err
+    };
+    let checks: Vec<bool> = vec![
+        t(3, -150, false, Mode::HalfEven, 2, Greater),
+        t(5, -150, true, Mode::HalfEven, 0x8000_0002, Greater),
+        t(1, -150, false, Mode::HalfEven, 0, Less),
+        t(3, -151, false, Mode::HalfEven, 1, Greater),
+        t(3, -151, false, Mode::Zero, 0, Less),
+        t((1 << 25) + 1, 0, false, Mode::Up, 0x4c00_0001, Greater),
+        t((1 << 25) + 1, 0, true, Mode::Up, 0xcc00_0000, Greater),
+        t((1 << 25) + 1, 0, false, Mode::HalfAway, 0x4c00_0000, Less),
+        t((1 << 24) + 1, 0, false, Mode::HalfAway, 0x4b80_0001, Greater),
+        t((1 << 24) + 1, 0, false, Mode::HalfEven, 0x4b80_0000, Less),
+        t(u128::MAX, 0, false, Mode::HalfEven, 0x7f80_0000, Greater),
+        !round_dyadic(u128::MAX, 0, false, F32, Mode::Zero).inf,
+        round_dyadic(1, 128, false, F32, Mode::Zero).alt_max && round_dyadic(1, 128, false, F32, Mode::Zero).inf && !round_dyadic(1, 128, false, F32, Mode::Away).alt_max,
+        round_int(&Rat::new(BigInt::from(-5), BigInt::from(2)), Mode::HalfEven) == (BigInt::from(-2), Greater),
+        round_int(&Rat::new(BigInt::from(-5), BigInt::from(2)), Mode::HalfAway) == (BigInt::from(-3), Less),
+        round_int(&Rat::new(BigInt::from(7), BigInt::from(2)), Mode::HalfEven) == (BigInt::from(4), Greater),
+        round_int(&Rat::new(BigInt::from(-1), BigInt::from(3)), Mode::Up) == (BigInt::from(0), Greater),
+        round_int(&Rat::new(BigInt::from(-1), BigInt::from(3)), Mode::Away) == (BigInt::from(-1), Less),
+        parts_of(1.0f32) == Some((false, 1 << 23, -23)),
+        parts_of(f64::from_bits(1)) == Some((false, 1, -1074)),
+        parts_of(f32::NAN).is_none(),
+    ];
+    let ok = checks.iter().all(|b| *b);
+    if !ok { bad.push(format!("hand-computed case #{}", checks.iter().position(|b| !*b).unwrap())); }
+    if !bad.is_empty() {
+        ctx.machinery(format!("IEEE reference failed its self-check: {} disagreements, first: {}", bad.len(), bad[0]));
+    }
+}
 
 pub fn run(ctx: &mut Ctx) {
-    ctx.machinery("check C06 is not built yet");
+    ctx.rule = "exhaustive walks of closed universes, no sampling: (a) every u8/i8/u16/i16 value and a boundary set (+-2^k, +-(2^k+-1), multi-word shapes) through every source primitive type, into UBig/IBig/FBig<2>/FBig<10>/RBig/Relaxed, and from each of those into all 12 primitive types; (b) f32 bit patterns (all exponents and signs x structured mantissas; thorough: all 2^32) and an f64 exponent x mantissa-atom grid through TryFrom into every big type and back, decode/encode; (c) integers m*2^k+t with near-tie mantissas through to_f32/to_f64; (d) rationals (M + delta/d)*2^j around ties, subnormals, overflow through RBig/Relaxed to_f32/to_f64(_fast); (e) FBig of bases 2, 10, 16, 3 through to_f32 (all six modes) / to_f64; (f) to_int family, RBig::to_float, FBig<->RBig<->integers on small closed float/fraction universes; (g) FloatEncoding::encode over structured mantissas x boundary exponents. non-trivial = source value not zero".into();
+    ctx.assume("reference: IEEE-754 grid rounding implemented on integers/exact fractions (num_bigint), cross-checked at start-up against hardware int->float and f64->f32 casts and std's decimal parser");
+    ctx.assume("a TryFrom that refuses a representable value is tolerated (counted as conservative-refusal) except where the round-trip clause of the property applies (integer -> big -> integer)");
+    ctx.assume("Rounding::NoOp carries no documented direction; AddOne => result > exact, SubOne => result < exact are demanded");
+    ctx.assume("overflow in a mode that rounds towards zero: both infinity and the largest finite value are admitted (undocumented)");
+    let quick = ctx.quick();
+    ctx.bound("f32.mantissa_structure", if quick { "[4 free bits][3 zero bits][8 bits all 0 or all 1][8 free bits], all 512 sign/exponent fields" } else { "all 2^32 bit patterns" });
+    ctx.bound("int.to_float", "m*2^k + t, t in {0, 1, 2^k-1}; m: 26-bit (f32) / 55-bit (f64) [1][free top bits][middle 0/1/alternating][free low bits] plus every small m; k: 0..4, 37..41, 62..66, 99..105 (f32), 0..3, 9..12, 60..75, 500, 966..973 (f64); thorough adds every 26-bit m at k in {0, 39, 64, 102}");
+    ctx.bound("rat.to_float", "(M + delta/d)*2^j, delta in {-1,0,1}, both signs; M: (mant+2)-bit structured; d in {3, 10, 1025, 2^61-1, 2^64+13, 2^89-1 (+7, 1023, 2^31-1, 3*2^20 thorough)}; j: f32 -181..-148, 99..105 and 12 interior values, f64 -1135..-1125, -1082..-1073, 966..972 and 17 interior values; subnormal sweep M in 1..2^9 (2^12 thorough), s in 0..12");
+    ctx.bound("fbig.to_float", "base 2: 26-/55-bit near-tie significands x subnormal..overflow exponents, six modes; base 10: significands < 10^2 (six modes) and < 10^3 (HalfEven, Zero) x 10^-50..10^40 [thorough: < 10^4, six modes], 2-digit significands x 10^-330..10^310 (quick: every third exponent); base 16: 26-bit significands x 16^-46..16^33; base 3 (thorough): < 3^5 x 3^-100..3^85");
+    ctx.bound("to_int", if quick { "F(2,4,6), F(10,2,4) x precision {digits, digits+3, unlimited} x six modes; Q(12,12) + 80 multi-word fractions; to_float precisions 1,2,3,5, bases 2 and 10" } else { "F(2,6,8), F(10,2,4), F(3,3,4), F(16,2,3) x precision {digits, digits+3, unlimited} x six modes; Q(40,40) + multi-word fractions; to_float precisions 1,2,3,4,5,8,20, bases 2, 10, 3, 16" });
+    ctx.bound("encode", "f32: +-[10 free bits][11 bits all 0/1][10 free bits] (quick: 8 of the 10 top bits) x 63 exponents incl. i16 limits, thorough: all 2^32 mantissas x 12 exponents; f64: bit lengths 1..63 x [top field][middle 0/1/alternating][6 free low bits] x ~190 exponents");
+    self_check(ctx);
+    sweep_prims(ctx);
+    sweep_floats(ctx);
+    sweep_int_to_float(ctx);
+    sweep_encode(ctx);
+    sweep_rat_to_float(ctx);
+    sweep_fbig_to_float(ctx);
+    sweep_to_int_family(ctx);
 }
